@@ -1,48 +1,216 @@
-"""C01 CoAP datagram codec: lossless round trip, RFC 7252 section 3 format, total parsing."""
+"""C01 CoAP datagram codec: lossless round trip, RFC 7252 section 3 format, total parsing.
+
+The value-level clauses (c..g) do not look at the *shape* of the codec functions any more: the functions are
+evaluated in the checker's own evaluator (rules/_kit_c01.py: a side-effect-free interpreter over the syntax trees,
+nothing of the repository is imported or executed) over finite domains, and the values are compared with a reference
+codec written here from RFC 7252 section 3 / RFC 7959 section 2.2.  Whatever spelling computes the same values
+(reordered arms, early returns, shared tails, tables, divmod, helpers, constructor keywords instead of attribute
+stores, comprehension instead of append loops) is therefore the same fact to these clauses; a spelling outside the
+evaluator's vocabulary is refused (exit 2), never guessed.  Clause a is decided over the escape analysis as before (a
+statement about all inputs; three engine limitations are worked around by local lemmas, each argued where it is
+defined) and additionally replays mutated datagrams; clause b evaluates the two receive functions on well-formed and
+malformed datagrams with recording stand-ins for their collaborators and keeps the CFG form where it is conclusive;
+clause h bounds the receive buffer from below through def-use.
+"""
 
 import ast
+import os
 
 from ..rulekit import *
-from ..norm import Normalizer, Poly, bitfields, consteval, interval_of, NormError
+from ..norm import consteval, NormError
 from ..exc import EscapeAnalysis
+from ..paths import PathModel
+from . import _kit_c01 as K
 
 R = Rules(
     "C01",
     explanation=(
-        "Structural clauses of the datagram codec: (a) exception-escape analysis of Message.decode over its resolved "
+        "Clauses of the datagram codec: (a) exception-escape analysis of Message.decode over its resolved "
         "call closure (Options.decode, extended-field reader, option construction through the option-number -> format "
         "dispatch table, the five value decoders, Message.__init__) with handler filtering and call-site "
-        "specialisation: the escape set must be a subset of {error.UnparsableMessage}; (b) the UDP transports catch "
-        "exactly that class around Message.decode and return without dispatching; (c) writer and reader of the 4-byte "
-        "header agree with RFC 7252 figure 7 as bit-field layouts; (d) the delta/length nibble codec's writer and "
-        "reader are extracted as piecewise tables and compared with each other and with RFC 7252 section 3.1 "
-        "(0..12 inline, 13 -> 1 byte +13, 14 -> 2 bytes +269, 15 reserved), including byte order and the option byte "
-        "layout, delta accumulation and sorted emission; (e) per-format value codecs agree between encode and decode; "
-        "(f) the option-number -> format registrations equal the registry table of RFC 7252/7959/7641/7967/8613/9175/8768. "
-        "Value-level equality for all byte strings is not decided."
+        "specialisation: the escape set must be a subset of {error.UnparsableMessage}; in addition every truncation and "
+        "single-byte mutation of reference datagrams is replayed through Message.decode in the checker's evaluator; "
+        "(b) the UDP transports' receive functions, evaluated with recording stand-ins for their collaborators, hand a well-formed "
+        "datagram on exactly once and drop malformed ones silently; where the parser call sits in a try statement the handler "
+        "for that class neither dispatches nor raises in the CFG (sibling transports: CFG form only); "
+        "(c) writer and reader of the 4-byte header, evaluated for every type/token length and sampled codes, message "
+        "IDs, tokens and payloads, equal RFC 7252 figure 7; (d) the delta/length nibble codec's writer and reader, "
+        "evaluated over the whole table 0..65804 (quick tier: every value near a breakpoint of the RFC or of the code plus "
+        "a sweep; thorough tier: every value), equal RFC 7252 section 3.1 (0..12 inline, 13 -> 1 byte +13, 14 -> 2 bytes "
+        "+269, 15 reserved) including byte order; Options.encode/decode scenarios (option byte layout, delta accumulation, "
+        "extension order, sorted stable emission, payload marker) equal the reference encoding; (e) per-format value "
+        "codecs equal the reference value encodings in both directions; (f) the option-number -> format registrations, "
+        "obtained by replaying the registration statements, equal the registry table of RFC 7252/7959/7641/7967/8613/9175/8768; "
+        "(g) option numbers created on demand keep their identity (path model over _missing_, and evaluated over a history of "
+        "thousands of numbers); (h) the buffer passed to recvmsg() is at least the hand-confirmed 4096 bytes.  Value-level "
+        "equality for all byte strings is not decided."
     ),
-    rule_text="escape sets over the resolved call graph; bit-field and piecewise-table normal forms compared writer vs reader vs RFC reference",
+    rule_text="escape sets over the resolved call graph; codec functions evaluated over finite domains in the checker's own evaluator and compared with an RFC reference codec",
 )
 
 ALLOWED = "aiocoap.error.UnparsableMessage"
+M_OPTNUM = "aiocoap.numbers.optionnumbers"
+
+
+def raw_program(prog):
+    """the same tree without the engine's canonicalisation (helper expansion, copy propagation): the evaluator follows
+    calls by itself, so it is given the functions exactly as the repository spells them and does not depend on those
+    rewrites being behaviour preserving"""
+    raw = getattr(prog, "_c01_raw", None)
+    if raw is None:
+        if os.environ.get("COAPLINT_NO_INLINE"):
+            raw = prog
+        else:
+            os.environ["COAPLINT_NO_INLINE"] = "1"
+            try:
+                raw = type(prog)(prog.root, overrides=prog.overrides)
+            finally:
+                del os.environ["COAPLINT_NO_INLINE"]
+        prog._c01_raw = raw
+    return raw
+
+
+def interp(ctx, **kw):
+    """a fresh evaluator (state such as enum tables is per evaluator); the registration statements of
+    numbers/optionnumbers.py are replayed the first time the module is touched"""
+    raw = raw_program(ctx.prog)
+    # import-time statements that are replayed: strictly those of numbers/optionnumbers.py (where the formats are
+    # registered); tolerantly (statements outside the vocabulary are skipped and noted) those of the other modules a
+    # registration could be moved to
+    others = {m for m in raw.modules if m == "aiocoap.numbers" or m.startswith("aiocoap.numbers.") or m in ("aiocoap.optiontypes", "aiocoap.options")}
+    I = K.Interp(raw, effect_modules={M_OPTNUM}, tolerant_effect_modules=others, **kw)
+    for m in sorted(others | {M_OPTNUM}):
+        I.run_effects(m)
+    if I.skipped_effects and not getattr(ctx, "_c01_skipnote", False):
+        ctx._c01_skipnote = True
+        ctx.note("import-time statements not replayed: %s" % "; ".join(I.skipped_effects))
+    return I
+
+
+def g_(I, mod, name):
+    try:
+        return I.global_lookup("aiocoap." + mod, name)
+    except KeyError:
+        raise AnchorError("anchor %s.%s not found" % (mod, name))
+
+
+def short_name(v):
+    return v.qn.split(".")[-1] if isinstance(v, K.ClassRef) else repr(v)
+
+
+# ---------------------------------------------------------------------------
+# reference codec (RFC 7252 section 3, 3.1; RFC 7959 section 2.2), written independently of the repository
+
+
+def ref_ext(v):
+    """value -> (nibble, extension bytes) or None outside the table"""
+    if 0 <= v <= 12:
+        return v, b""
+    if 13 <= v <= 268:
+        return 13, bytes([v - 13])
+    if 269 <= v <= 65804:
+        return 14, bytes([(v - 269) >> 8, (v - 269) & 0xFF])
+    return None
+
+
+def ref_options(opts):
+    """[(number, value bytes)] in insertion order -> option bytes (sorted by number, stable)"""
+    out = b""
+    prev = 0
+    for num, val in sorted(opts, key=lambda o: o[0]):
+        dn, de = ref_ext(num - prev)
+        ln, le = ref_ext(len(val))
+        out += bytes([(dn << 4) | ln]) + de + le + val
+        prev = num
+    return out
+
+
+def ref_message(mtype, code, mid, token, optbytes, payload):
+    out = bytes([(1 << 6) | (mtype << 4) | len(token), code, mid >> 8, mid & 0xFF]) + token + optbytes
+    if payload:
+        out += b"\xff" + payload
+    return out
+
+
+def ref_uint(v):
+    out = b""
+    while v:
+        out = bytes([v & 0xFF]) + out
+        v >>= 8
+    return out
+
+
+def ref_parse_options(raw):
+    """-> ([(number, value)], payload) or None if not well-formed under RFC 7252 section 3.1"""
+    opts = []
+    num = 0
+    i = 0
+    while i < len(raw):
+        b = raw[i]
+        i += 1
+        if b == 0xFF:
+            return opts, raw[i:]
+        fields = []
+        for nib in (b >> 4, b & 0x0F):
+            if nib < 13:
+                fields.append(nib)
+            elif nib == 13:
+                if i + 1 > len(raw):
+                    return None
+                fields.append(raw[i] + 13)
+                i += 1
+            elif nib == 14:
+                if i + 2 > len(raw):
+                    return None
+                fields.append((raw[i] << 8) + raw[i + 1] + 269)
+                i += 2
+            else:
+                return None
+        num += fields[0]
+        if i + fields[1] > len(raw):
+            return None
+        opts.append((num, raw[i:i + fields[1]]))
+        i += fields[1]
+    return opts, b""
+
+
+# ---------------------------------------------------------------------------
+# a: parser totality
 
 
 def option_type_hints(prog):
     ot = [c for c in prog.subclasses("aiocoap.optiontypes.OptionType") if c != "aiocoap.optiontypes.OptionType"]
-    # declared dynamic dispatch: the local bound from `self.format(self)` is an instance of a registered format class
-    return {("numbers.optionnumbers.OptionNumber.create_option", "=self.format"): ot}, ot
+    # declared dynamic dispatch: a local of create_option bound from a call of the number's format -- `self.format(self)`,
+    # a local alias of self.format / self._get_format() called, or `self._get_format()(self)` -- is an instance of one
+    # of the OptionType classes (which ones are registered is clause f's business)
+    short = "numbers.optionnumbers.OptionNumber.create_option"
+    hints = {(short, "=self.format"): ot}
+    if prog.has_func(short):
+        fn = prog.func(short).node
+
+        def is_format(e):
+            e = resolve_local(fn, e)
+            return chain(e) == "self.format" or match("self._get_format()", e) is not None
+        for n in walk_no_nested(fn):
+            if isinstance(n, ast.Assign) and isinstance(n.value, ast.Call) and is_format(n.value.func):
+                hints[(short, "=" + (chain(n.value.func) or "?"))] = ot
+    return hints, ot
 
 
-def registered_formats(prog):
-    """OptionNumber.X.set_format(optiontypes.Y) statements at module level -> {X: Y}"""
-    mod = prog.module("numbers.optionnumbers")
+def format_table(I):
+    """{member name: (number, format class)} of OptionNumber after the registration statements have been replayed,
+    and the format an unregistered number gets"""
+    ON = g_(I, "numbers.optionnumbers", "OptionNumber")
+    st = I.enum_state(ON)
     out = {}
-    for st in mod.tree.body:
-        if isinstance(st, ast.Expr):
-            b = match("OptionNumber.$n.set_format($f)", st.value)
-            if b is not None:
-                out[b["n"]] = chain(b["f"]).split(".")[-1]
-    return out
+    for name in st["_member_names_"]:
+        m = st["_member_map_"][name]
+        out[name] = (int(m), I.getattr(m, "format"))
+    probe = 64999
+    while probe in st["_value2member_map_"]:
+        probe -= 1
+    default = I.getattr(I.call(ON, [probe], {}), "format")
+    return out, default
 
 
 def fake(line):
@@ -51,21 +219,279 @@ def fake(line):
     return n
 
 
+def _param_sources(fi, e):
+    """the parameters of fi a value expression may come from: the name itself if it is a parameter, and, through
+    its re-assignments `name = other_param`, those parameters; None if any other value can reach it"""
+    ps = set(params(fi)) | {a.arg for a in fi.node.args.kwonlyargs}
+    if not isinstance(e, ast.Name):
+        return None
+    todo, seen, out = [e.id], set(), set()
+    while todo:
+        n = todo.pop()
+        if n in seen:
+            continue
+        seen.add(n)
+        if n in ps:
+            out.add(n)
+        elif not writes_to_name(fi.node, n):
+            return None
+        for w in writes_to_name(fi.node, n):
+            if isinstance(w, ast.Assign) and len(w.targets) == 1 and isinstance(w.targets[0], ast.Name) and isinstance(w.value, ast.Name):
+                todo.append(w.value.id)
+            else:
+                return None
+    return out
+
+
+def resolve_value(fnode, e, depth=6):
+    """def-use through single assignments, including the elements of a tuple assignment from a tuple display
+    (`a, b = x >> 4, x & 15` is the same fact as `a = x >> 4; b = x & 15`)"""
+    while depth and isinstance(e, ast.Name):
+        depth -= 1
+        ws = writes_to_name(fnode, e.id)
+        if len(ws) != 1 or not isinstance(ws[0], ast.Assign) or len(ws[0].targets) != 1:
+            break
+        t, v = ws[0].targets[0], ws[0].value
+        if isinstance(t, ast.Name):
+            e = v
+        elif isinstance(t, (ast.Tuple, ast.List)) and isinstance(v, (ast.Tuple, ast.List)) and len(t.elts) == len(v.elts) and not any(isinstance(x, ast.Starred) for x in t.elts + v.elts):
+            idx = [i for i, x in enumerate(t.elts) if isinstance(x, ast.Name) and x.id == e.id]
+            if len(idx) != 1:
+                break
+            e = v.elts[idx[0]]
+        else:
+            break
+    return e
+
+
+def int_range(fnode, e, depth=0):
+    """inclusive integer bounds of an expression, from its operators alone (no assumption about the operands' values):
+    `x & m` lies in 0..m and `x % k` in 0..k-1 for every integer x; shifts, floor division, sums and products of bounded
+    non-negative operands; conditional expressions; the elements of `divmod(x, k)`; comparisons and bool().  None if
+    nothing is known.  Names are followed through single assignments, including tuple assignments."""
+    if depth > 12:
+        return None
+    e = resolve_value(fnode, e)
+    rec = lambda x: int_range(fnode, x, depth + 1)
+    if isinstance(e, ast.Constant):
+        if isinstance(e.value, bool):
+            return (int(e.value), int(e.value))
+        if isinstance(e.value, int):
+            return (e.value, e.value)
+        return None
+    if isinstance(e, (ast.Compare, ast.BoolOp)) and not isinstance(e, ast.BoolOp):
+        return (0, 1)
+    if isinstance(e, ast.UnaryOp) and isinstance(e.op, ast.Not):
+        return (0, 1)
+    if isinstance(e, ast.Call) and chain(e.func) == "bool" and len(e.args) == 1:
+        return (0, 1)
+    if isinstance(e, ast.Call) and chain(e.func) == "int" and len(e.args) == 1:
+        return rec(e.args[0])
+    if isinstance(e, ast.IfExp):
+        a, b = rec(e.body), rec(e.orelse)
+        return (min(a[0], b[0]), max(a[1], b[1])) if a and b else None
+    if isinstance(e, ast.Name):
+        # element of `q, r = divmod(x, k)`
+        ws = writes_to_name(fnode, e.id)
+        if len(ws) == 1 and isinstance(ws[0], ast.Assign) and len(ws[0].targets) == 1 and isinstance(ws[0].targets[0], (ast.Tuple, ast.List)) and len(ws[0].targets[0].elts) == 2:
+            v = ws[0].value
+            if isinstance(v, ast.Call) and chain(v.func) == "divmod" and len(v.args) == 2:
+                k = rec(v.args[1])
+                t = ws[0].targets[0].elts
+                if k and k[0] == k[1] and k[0] > 0:
+                    if isinstance(t[1], ast.Name) and t[1].id == e.id:
+                        return (0, k[0] - 1)
+                    x = rec(v.args[0])
+                    if x and x[0] >= 0 and isinstance(t[0], ast.Name) and t[0].id == e.id:
+                        return (x[0] // k[0], x[1] // k[0])
+        return None
+    if isinstance(e, ast.BinOp):
+        l, r = rec(e.left), rec(e.right)
+        op = e.op
+        if isinstance(op, ast.BitAnd):
+            cands = [x[1] for x in (l, r) if x and x[0] >= 0]
+            return (0, min(cands)) if cands else None
+        if isinstance(op, ast.Mod):
+            return (0, r[1] - 1) if r and r[0] == r[1] and r[0] > 0 else None
+        if l is None or r is None or l[0] < 0 or r[0] < 0:
+            return None
+        if isinstance(op, ast.RShift):
+            return (l[0] >> r[1], l[1] >> r[0]) if r[1] < 4096 else None
+        if isinstance(op, ast.FloorDiv):
+            return (l[0] // r[1], l[1] // r[0]) if r[0] > 0 else None
+        if isinstance(op, ast.LShift):
+            return (l[0] << r[0], l[1] << r[1]) if r[1] < 64 else None
+        if isinstance(op, ast.Add):
+            return (l[0] + r[0], l[1] + r[1])
+        if isinstance(op, ast.Mult):
+            return (l[0] * r[0], l[1] * r[1])
+        if isinstance(op, (ast.BitOr, ast.BitXor)):
+            return (0, (1 << max(l[1], r[1]).bit_length()) - 1)
+    return None
+
+
+def _enum_members(prog, ecls):
+    out = set()
+    for k, v in prog.classes[ecls].attrs.items():
+        try:
+            val = consteval(v)
+        except NormError:
+            return None
+        if isinstance(val, int) and not isinstance(val, bool):
+            out.add(val)
+    return out
+
+
+def enum_arg_ok(EA, prog, fi, ecls, arg):
+    """the argument of a closed-enum construction is one of the member values whatever the input: the engine's own
+    bit-field lemma, or the operator-derived range of the (def-use resolved) expression is covered by the members"""
+    arg = resolve_value(fi.node, arg)
+    if EA._enum_arg_in_range(fi, ecls, arg):
+        return True
+    rng = int_range(fi.node, arg)
+    mem = _enum_members(prog, ecls)
+    return bool(rng and mem is not None and rng[1] - rng[0] < 4096 and set(range(rng[0], rng[1] + 1)) <= mem)
+
+
+def closed_enum_lemma(ctx, EA, es, entry):
+    """Engine work-around (exc.py decides `Enum(arg)` cannot raise only when arg is a bit-field spelled with shifts and
+    masks over single-name assignments *in the same function*).  The same fact is established (1) in the same function
+    for every spelling whose value range follows from its operators (`% 16`, divmod, tuple assignments), and (2) when
+    the argument is a parameter, at the call sites: if every call in the closure of the entry that reaches this function
+    passes, for each parameter the argument can come from, nothing / None (the callee's own None test is pruned by the
+    call-site specialisation) or a value covered by the members, the construction cannot raise.  Returns the ast call
+    nodes proven infeasible."""
+    prog = ctx.prog
+    dead = []
+    closure = [prog.funcs[q] for q, *_ in EA.memo if q in prog.funcs]
+    for e in es:
+        if e.cls != "ValueError":
+            continue
+        ofi = prog.funcs.get("aiocoap." + e.func)
+        if ofi is None:
+            continue
+        for call in calls_in(ofi.node):
+            if getattr(call, "lineno", None) != e.line or stmt_text(call, 80) != e.text or len(call.args) != 1 or call.keywords:
+                continue
+            ecls = EA.res.class_of_name(ofi, chain(call.func) or "")
+            if not ecls or not EA._closed_enum(ecls):
+                continue
+            if enum_arg_ok(EA, prog, ofi, ecls, call.args[0]):
+                dead.append(call)
+                ctx.note("L4 by value range: %s in %s cannot raise" % (e.text, e.func))
+                continue
+            if ofi.cls is None or ofi.name != "__init__":
+                continue
+            srcs = _param_sources(ofi, call.args[0])
+            if not srcs:
+                continue
+            ok, nsites = True, 0
+            for cf in closure:
+                for c2 in calls_in(cf.node):
+                    callees, kind = EA.res.resolve_callees(cf, c2)
+                    if not any(cal is ofi for cal, _ in callees):
+                        continue
+                    nsites += 1
+                    if any(isinstance(a, ast.Starred) for a in c2.args) or any(k.arg is None for k in c2.keywords):
+                        ok = False
+                        continue
+                    pos = params(ofi)
+                    given = dict(zip(pos, c2.args))
+                    given.update({k.arg: k.value for k in c2.keywords})
+                    for p in srcs:
+                        a = given.get(p)
+                        if a is None or (isinstance(a, ast.Constant) and a.value is None):
+                            continue
+                        if not enum_arg_ok(EA, prog, cf, ecls, a):
+                            ok = False
+            if ok and nsites:
+                dead.append(call)
+                ctx.note("L4 at the call sites: %s in %s cannot raise, all %d call site(s) in the closure of %s pass a value covered by the members" % (e.text, e.func, nsites, entry))
+    return dead
+
+
+def _norm_text(fnode, e):
+    """expression text with single-assignment locals resolved (`number = option.number; d[number]` reads d[option.number])"""
+    class T(ast.NodeTransformer):
+        def visit_Name(self, n):
+            if isinstance(n.ctx, ast.Load):
+                v = resolve_value(fnode, n)
+                if v is not n and all(isinstance(x, (ast.Name, ast.Attribute, ast.Load)) for x in ast.walk(v)):
+                    return v
+            return n
+    import copy
+    return dump(T().visit(copy.deepcopy(e)))
+
+
+def membership_guard_lemma(ctx, EA, es):
+    """Engine work-around (exc.py reports KeyError for every read `self.d[k]` of a dict attribute).  `d[k]` cannot raise
+    KeyError where a test `k in d` (or the false branch of `k not in d`) dominates the read, both name the same container
+    and key, and nothing between the test and the read can change either: the function is a plain def (atomic in the
+    event loop) and the CFG nodes between them contain no call, no store to the container and no re-binding of a name
+    the key is built from.  Returns the ast Subscript nodes proven infeasible."""
+    prog = ctx.prog
+    dead = []
+    for e in es:
+        if e.cls != "KeyError":
+            continue
+        ofi = prog.funcs.get("aiocoap." + e.func)
+        if ofi is None or not is_plain_sync(ofi):
+            continue
+        cfg = cfg_of(ofi)
+        for sub in walk_no_nested(ofi.node):
+            if not isinstance(sub, ast.Subscript) or not isinstance(sub.ctx, ast.Load) or getattr(sub, "lineno", None) != e.line or stmt_text(sub, 80) != e.text:
+                continue
+            use_ids = cfg.locate(sub)
+            if len(use_ids) != 1:
+                continue
+            use = use_ids[0]
+            cont, key = _norm_text(ofi.node, sub.value), _norm_text(ofi.node, sub.slice)
+            for test, pol, pseudo in cfg.guards(use):
+                if not (isinstance(test, ast.Compare) and len(test.ops) == 1 and isinstance(test.ops[0], (ast.In, ast.NotIn))):
+                    continue
+                if (isinstance(test.ops[0], ast.In)) != pol:
+                    continue
+                if _norm_text(ofi.node, test.comparators[0]) != cont or _norm_text(ofi.node, test.left) != key:
+                    continue
+                between = {n for n in cfg.reach({pseudo}, avoid={use}) if use in cfg.reach({n})} - {pseudo}
+                keynames = {x.id for x in ast.walk(sub.slice) if isinstance(x, ast.Name)} | {x.id for x in ast.walk(test.left) if isinstance(x, ast.Name)}
+                clean = True
+                for n in between:
+                    a_ = cfg.nodes[n].ast
+                    if a_ is None or cfg.nodes[n].kind in ("T", "F", "join"):
+                        continue
+                    for x in ast.walk(a_):
+                        if isinstance(x, (ast.Call, ast.Await, ast.Yield, ast.YieldFrom, ast.Delete)):
+                            clean = False
+                        if isinstance(x, ast.Name) and isinstance(x.ctx, ast.Store) and x.id in keynames:
+                            clean = False
+                        if isinstance(x, (ast.Attribute, ast.Subscript)) and isinstance(x.ctx, ast.Store):
+                            clean = False
+                if clean:
+                    dead.append(sub)
+                    ctx.note("membership lemma: %s in %s is dominated by the test `%s`" % (e.text, e.func, stmt_text(test, 60)))
+                    break
+    return dead
+
+
 def escape_clause(ctx, entry_short, what, extra_allowed=()):
     prog = ctx.prog
     hints, ot = option_type_hints(prog)
-    # the dispatch table: every registered format must be one of the OptionType subclasses analysed
-    regs = registered_formats(prog)
-    ctx.floor("set_format registrations", len(regs), 25)
-    otnames = {c.split(".")[-1] for c in ot}
-    for name, fmt in regs.items():
-        ctx.need(fmt in otnames, "format %s registered for %s is not an OptionType subclass of optiontypes.py" % (fmt, name))
-    gf = prog.func("numbers.optionnumbers.OptionNumber._get_format")
-    dflt = [n for n in walk_no_nested(gf.node) if isinstance(n, ast.Return) and n.value is not None and chain(n.value) and chain(n.value).split(".")[-1] in otnames]
-    ctx.need(dflt, "default option format is not an OptionType subclass")
-    EA = EscapeAnalysis(prog, hints)
+    # the dispatch table: every registered format (and the default) must be one of the OptionType subclasses analysed
+    I = interp(ctx)
+    regs, default = format_table(I)
+    ctx.floor("option numbers with a format", len(regs), 25)
+    for name, (num, fmt) in regs.items():
+        ctx.need(isinstance(fmt, K.ClassRef) and fmt.qn in ot, "format %s registered for %s is not an OptionType subclass of optiontypes.py" % (short_name(fmt), name))
+    ctx.need(isinstance(default, K.ClassRef) and default.qn in ot, "default option format is not an OptionType subclass")
     fi = prog.func(entry_short)
+    EA = EscapeAnalysis(prog, hints)
     es = EA.escapes(fi)
+    dead = closed_enum_lemma(ctx, EA, es, entry_short) + membership_guard_lemma(ctx, EA, es)
+    if dead:
+        EA = EscapeAnalysis(prog, hints)
+        EA.dead_nodes.update(id(n) for n in dead)
+        es = EA.escapes(fi)
     funcs = {k[0] for k in EA.memo}
     ctx.extra.setdefault("escape_regions", {})[entry_short] = {
         "functions_in_closure": sorted(f[len("aiocoap."):] for f in funcs),
@@ -92,20 +518,81 @@ def escape_clause(ctx, entry_short, what, extra_allowed=()):
     return es
 
 
+def reference_datagrams():
+    """well-formed datagrams that exercise every branch of the format (extended deltas and lengths of both widths,
+    every value format, repeated options, payload, empty message)"""
+    long_val = bytes(range(256)) + bytes(44)
+    d = [
+        ref_message(0, 1, 0x1234, b"", b"", b""),
+        ref_message(1, 2, 0xFFFE, b"\x01\x02\x03\x04\x05\x06\x07\x08", ref_options([(11, b"a"), (11, "é世".encode()), (12, b"\x00\x32"), (15, b"q=1")]), b"payload"),
+        ref_message(2, 69, 7, b"\xaa", ref_options([(4, b"\x01\x02"), (6, b"\x01"), (14, b"\x3c"), (23, b"\x12\x3e"), (27, b""), (60, b"\x01\x00\x00")]), b"\xff\x00"),
+        ref_message(3, 0, 0, b"", b"", b""),
+        ref_message(0, 1, 1, b"\x10\x20", ref_options([(3, b"example.org"), (7, b"\x16\x33"), (35, long_val), (258, b"\x1a"), (292, b"tag"), (2000, b"x" * 13), (65000, b"")]), b"p"),
+        ref_message(0, 5, 2, b"t", ref_options([(13, b"\x05"), (13 + 269, b"yy"), (13 + 269 + 65804, b"z")]), b""),
+    ]
+    return d
+
+
 @R.clause("C01.a", "parser totality: no exception other than error.UnparsableMessage leaves Message.decode")
 def a(ctx):
     escape_clause(ctx, "message.Message.decode", "datagram parser")
     ci = ctx.prog.cls("error.UnparsableMessage")
     ctx.ob("UnparsableMessage is a library error", ctx.prog.is_subclass(ci.qn, "aiocoap.error.Error"), None, None, construct="class UnparsableMessage")
+    # replay: every truncation and a family of single-byte substitutions / insertions of the reference datagrams
+    I = interp(ctx)
+    fi = ctx.prog.func("message.Message.decode")
+    dec = I.getattr(g_(I, "message", "Message"), "decode")
+    seen = set()
+    cases = []
+    for d in reference_datagrams():
+        muts = [d[:i] for i in range(len(d) + 1)]
+        for i in range(min(len(d), 48)):
+            for v in (0x00, 0x0D, 0x0E, 0xD0, 0xE0, 0xF0, 0xFF, d[i] ^ 0x40, d[i] ^ 0x01):
+                muts.append(d[:i] + bytes([v]) + d[i + 1:])
+            muts.append(d[:i] + b"\xff" + d[i:])
+            muts.append(d[:i] + b"\xc3" + d[i:])
+            muts.append(d[:i] + d[i + 1:])
+        for m in muts:
+            if m not in seen:
+                seen.add(m)
+                cases.append(m)
+    escapes = {}
+    for m in cases:
+        o = K.run(I, dec, m)
+        if not o.ok and not o.raised(ALLOWED):
+            escapes.setdefault(o.names[0], m)
+    ctx.floor("mutated datagrams replayed through Message.decode", len(cases), 1000)
+    for cls, m in sorted(escapes.items()):
+        ctx.ob("datagram parser: only error.UnparsableMessage may leave the parser (replayed datagram)", False, fi, fi.node, construct="%s escapes Message.decode" % cls, detail="Message.decode(bytes.fromhex(%r)) raises %s" % (m.hex(), cls))
+    if not escapes:
+        ctx.ob("datagram parser: %d truncations / substitutions / insertions of reference datagrams are parsed or rejected with UnparsableMessage" % len(cases), True, fi, fi.node, construct="Message.decode replay")
+
+# ---------------------------------------------------------------------------
+# b: the transports
 
 
 def decode_sites(prog, fi):
-    return [c for c in calls_in(fi.node) if call_name(c) in ("Message.decode", "aiocoap.Message.decode", "message.Message.decode")]
+    """calls that resolve (through the module's imports and re-exports) to message.Message.decode"""
+    out = []
+    for c in calls_in(fi.node):
+        cn = call_name(c)
+        if not cn or not cn.endswith("decode"):
+            continue
+        if prog.resolve_in_module(fi.module, cn) == "aiocoap.message.Message.decode":
+            out.append(c)
+    return out
 
 
-def check_site(ctx, fi):
+def check_site(ctx, fi, evaluated=False):
+    """Structural form of the clause, over all inputs: the parser call sits in a try whose handler for UnparsableMessage
+    neither dispatches nor lets an exception continue.  With evaluated=True the receive path has already been decided by
+    evaluation (receive_scenarios), and a receive function that spells the drop without an enclosing try around the call
+    (helper that returns None, contextlib.suppress, ...) is left to that evaluation instead of being reported."""
     cfg = cfg_of(fi)
     sites = decode_sites(ctx.prog, fi)
+    if evaluated and not sites:
+        ctx.note("%s: no direct Message.decode call site (moved into a helper that was not expanded); decided by evaluation only" % fi.short)
+        return
     ctx.floor("Message.decode call sites in %s" % fi.short, len(sites), 1)
     for c in sites:
         # enclosing try
@@ -119,6 +606,9 @@ def check_site(ctx, fi):
             child = p
             p = cfg.parent.get(id(p))
         if tr is None:
+            if evaluated:
+                ctx.note("%s: Message.decode is not called inside a try statement; decided by evaluation only" % fi.short)
+                continue
             ctx.ob("the datagram parser is called inside a handler for UnparsableMessage", False, fi, c)
             continue
         hs = []
@@ -130,21 +620,90 @@ def check_site(ctx, fi):
                     hs.append(h)
             if h.type is None:
                 hs.append(h)
+        if evaluated and not hs:
+            ctx.note("%s: the try around Message.decode names no UnparsableMessage handler; decided by evaluation only" % fi.short)
+            continue
         ctx.ob("the transport catches error.UnparsableMessage around the parser", bool(hs), fi, c)
         disp = [cfg.loc1(d) for d in calls_in(fi.node) if (call_name(d) or "").endswith(".dispatch_message")]
-        ctx.ob("the parsed message is dispatched", bool(disp), fi, c)
+        if not evaluated:
+            ctx.ob("the parsed message is dispatched", bool(disp), fi, c)
         for h in hs:
             hn = [n.id for n in cfg.nodes if n.kind == "handler" and n.ast is h]
             for x in hn:
                 r = cfg.reach({x}, skip_labels=("exc",))
-                ctx.ob("an unparsable datagram is dropped: nothing is dispatched and no exception continues", not (set(disp) & r) and cfg.rexit not in cfg.reach({x}, skip_labels=("exc",)) and not any(cfg.nodes[y].kind == "raise" for y in r), fi, h,
+                ok = not (set(disp) & r) and cfg.rexit not in cfg.reach({x}, skip_labels=("exc",)) and not any(cfg.nodes[y].kind == "raise" for y in r)
+                if evaluated and not ok:
+                    # reachability in the CFG over-approximates (a dispatch guarded by `message is not None` after a handler that
+                    # sets message = None is reachable but never taken): the evaluation above has shown the drop
+                    ctx.note("%s: a dispatch or raise is CFG-reachable from the UnparsableMessage handler but not taken on any evaluated datagram; decided by evaluation" % fi.short)
+                    continue
+                ctx.ob("an unparsable datagram is dropped: nothing is dispatched and no exception continues", ok, fi, h,
                        construct="except %s" % (ast.unparse(h.type) if h.type is not None else ""))
+
+
+MALFORMED_DATAGRAMS = [
+    ("empty", b""), ("three bytes", b"\x40\x01\x00"), ("version 0", b"\x00\x01\x00\x01"), ("version 2", b"\x80\x01\x00\x01\xffp"), ("option value cut", b"\x40\x01\x00\x01\xb5ab"),
+    ("extended delta cut", b"\x40\x01\x00\x01\xd0"), ("reserved nibble", b"\x40\x01\x00\x01\xf1a"), ("invalid UTF-8 in Uri-Path", b"\x40\x01\x00\x01\xb1\xff"),
+]
+
+
+def _is_logging(dotted):
+    parts = dotted.replace("()", "").split(".")
+    return any(p in ("log", "_log", "logger", "_logger", "logging", "_alglog") for p in parts[:-1]) or parts[-1] in ("debug", "info", "warning", "warn", "error", "exception", "critical")
+
+
+def receive_scenarios(ctx, short, make_args):
+    """The receive function of a transport, evaluated on an instance whose collaborators (logger, message manager, ...)
+    are recording stand-ins: a well-formed datagram is handed to a collaborator exactly once, as a Message; a datagram
+    the parser rejects is dropped -- no Message reaches any collaborator and no exception leaves the function.  All
+    rejections are the same exception class, so the handler's behaviour does not depend on which malformed datagram
+    triggers it; the evaluation is indifferent to how the drop is spelled (early return, try/else, helper, flag)."""
+    fi = ctx.prog.func(short)
+    I = interp(ctx)
+    cref = I.classref(fi.cls.qn)
+    Message = g_(I, "message", "Message")
+
+    def receive(datagram):
+        log = []
+        me = K.Obj(cref)
+        me._k_attrs["__k_fallback__"] = lambda name: K.AutoStub("self." + name, log)
+        r = K.run(I, I.getattr(me, fi.name), *make_args(datagram))
+        # logging is transparent (a message may be logged any number of times); everything else that receives a Message is a dispatch
+        handed = [(n, x) for n, a, k in log if not _is_logging(n) for x in list(a) + list(k.values()) if isinstance(x, K.Obj) and x._k_cref is Message]
+        return r, handed
+
+    good = [ref_message(0, 1, 0x1001, b"\x01", ref_options([(11, b"a")]), b""), ref_message(1, 69, 2, b"", b"", b"payload"), ref_message(3, 0, 3, b"", b"", b"")]
+    rows = []
+    for d in good:
+        r, handed = receive(d)
+        rows.append(("datagram %s" % d.hex(), "%s, %d message(s) handed on" % ("returned" if r.ok else r.describe(), len(handed)), "returned, 1 message(s) handed on"))
+        if r.ok and len(handed) == 1:
+            m = handed[0][1]
+            rows.append(("datagram %s: message handed on" % d.hex(), "mid %r payload %s" % (m._k_attrs.get("mid"), _hex(m._k_attrs.get("payload"))), "mid %r payload %s" % ((d[2] << 8) | d[3], (d.split(b"\xff", 1)[1] if b"\xff" in d else b"").hex())))
+    df = first_diff(rows)
+    ok1 = ctx.ob("the parsed message is dispatched", df is None, fi, fi.node, construct="%s: well-formed datagram" % fi.name, detail=df)
+    rows = []
+    for what, d in MALFORMED_DATAGRAMS:
+        r, handed = receive(d)
+        rows.append(("%s (%s)" % (what, d.hex() or "-"), "%s, %d message(s) handed on" % ("returned" if r.ok else r.describe(), len(handed)), "returned, 0 message(s) handed on"))
+    df = first_diff(rows)
+    ok2 = ctx.ob("an unparsable datagram is dropped: nothing is dispatched and no exception continues (evaluated)", df is None, fi, fi.node, construct="%s: malformed datagram" % fi.name, detail=df)
+    return ok1 and ok2
+
+
+ADDR = ("2001:db8::1", 5683, 0, 0)
+RECEIVERS = (
+    # (anchor, datagram -> positional arguments of the receive function as the transport calls it)
+    ("transports.udp6.MessageInterfaceUDP6.datagram_msg_received", lambda d: (d, [(41, 50, bytes(20))], 0, ADDR)),
+    ("transports.generic_udp.GenericMessageInterface._received_datagram", lambda d: (ADDR, d)),
+)
 
 
 @R.clause("C01.b", "the UDP transports drop exactly what the parser raises (UnparsableMessage) and dispatch nothing for it")
 def b(ctx):
-    for short in ("transports.udp6.MessageInterfaceUDP6.datagram_msg_received", "transports.generic_udp.GenericMessageInterface._received_datagram"):
-        check_site(ctx, ctx.prog.func(short))
+    for short, make_args in RECEIVERS:
+        passed = receive_scenarios(ctx, short, make_args)
+        check_site(ctx, ctx.prog.func(short), evaluated=passed)
 
 
 @R.clause("C01.b", "sibling sweep: every other Message.decode call site in the transports", tier="thorough")
@@ -153,474 +712,445 @@ def b_thorough(ctx):
     for fi in ctx.prog.funcs.values():
         if not fi.module.name.startswith("aiocoap.transports."):
             continue
-        if fi.short in ("transports.udp6.MessageInterfaceUDP6.datagram_msg_received", "transports.generic_udp.GenericMessageInterface._received_datagram"):
+        if fi.short in [r[0] for r in RECEIVERS]:
             continue
         if decode_sites(ctx.prog, fi):
             n += 1
             check_site(ctx, fi)
     ctx.floor("sibling Message.decode call sites", n, 2)
 
+# ---------------------------------------------------------------------------
+# c: fixed header
 
-def _appends(fi, name):
-    """Ordered list of (expr, node) assigned/appended to local `name` (by dominance order)."""
-    cfg = cfg_of(fi)
-    items = []
-    for w in writes_to_name(fi.node, name):
-        nid = cfg.loc1(w)
-        if isinstance(w, ast.Assign) and isinstance(w.value, ast.BinOp) and isinstance(w.value.op, ast.Add) and isinstance(w.value.left, ast.Name) and w.value.left.id == name:
-            items.append((nid, "+=", w.value.right, w))
-        elif isinstance(w, ast.Assign):
-            items.append((nid, "=", w.value, w))
-        elif isinstance(w, ast.AugAssign) and isinstance(w.op, ast.Add):
-            items.append((nid, "+=", w.value, w))
-        else:
-            items.append((nid, "?", None, w))
-    items.sort(key=lambda x: (len(cfg.dominators(x[0])), x[0]))
-    return items
+
+def first_diff(pairs):
+    for what, got, want in pairs:
+        if got != want:
+            return "%s: got %s, RFC reference %s" % (what, got, want)
+    return None
+
+
+def opaque_option(I, number, data):
+    """an option object whose encoded value is `data` whatever the registry says about the number"""
+    return I.call(g_(I, "optiontypes", "OpaqueOption"), [I.call(g_(I, "numbers.optionnumbers", "OptionNumber"), [number], {}), data], {})
+
+
+def _hex(x):
+    return x.hex() if isinstance(x, (bytes, bytearray)) else repr(x)
 
 
 @R.clause("C01.c", "fixed header: writer layout = reader layout = RFC 7252 figure 7")
 def c(ctx):
+    I = interp(ctx)
     enc = ctx.prog.func("message.Message.encode")
     dec = ctx.prog.func("message.Message.decode")
-    ecfg = cfg_of(enc)
-    rets = [n for n in walk_no_nested(enc.node) if isinstance(n, ast.Return) and n.value is not None]
-    ctx.need(len(rets) == 1 and isinstance(rets[0].value, ast.Name), "Message.encode does not return a single accumulated local")
-    acc = rets[0].value.id
-    items = _appends(enc, acc)
-    ctx.need(all(k in ("=", "+=") for _, k, _, _ in items) and items and items[0][1] == "=", "Message.encode: accumulator shape not understood")
-    seq = [(nid, e, w) for nid, k, e, w in items]
-    # 1. first byte
-    first = seq[0][1]
-    fb = match("bytes([$x])", first)
-    ok = False
-    layout = None
-    if fb is not None:
-        try:
-            layout = sorted(bitfields(fb["x"], norm.local_env(enc.node)), key=lambda f: -f[3])
-            ok = layout == [("self.version", 0, None, 6), ("self.mtype", 0, 2, 4), ("len(self.token)", 0, 4, 0)]
-        except NormError:
-            ok = False
-    ctx.ob("first header byte is Ver(2 bits at 7..6) | T(2 bits at 5..4) | TKL(4 bits at 3..0)", ok, enc, seq[0][2], detail="layout %s" % layout)
     init = ctx.prog.func("message.Message.__init__")
-    vs = [n for n in walk_no_nested(init.node) if isinstance(n, ast.Assign) and any(chain(t) == "self.version" for t in n.targets)]
-    ctx.ob("the version written is the constant 1", len(vs) == 1 and isinstance(vs[0].value, ast.Constant) and vs[0].value.value == 1, init, vs[0] if vs else init.node)
-    # 2. code + mid
-    ok2 = len(seq) > 1 and match("struct.pack('!BH', self.code, self.mid)", seq[1][1]) is not None
-    ctx.ob("bytes 1..3 are Code and Message ID in network byte order (struct '!BH')", ok2, enc, seq[1][2] if len(seq) > 1 else enc.node)
-    # 3. token, options
-    ok3 = len(seq) > 3 and chain(seq[2][1]) == "self.token" and match("self.opt.encode()", seq[3][1]) is not None
-    ctx.ob("header is followed by the token, then the options", ok3, enc, seq[2][2] if len(seq) > 2 else enc.node)
-    for nid, e, w in seq[:4]:
-        ctx.ob("header, token and options are emitted unconditionally", not guard_exprs(ecfg, nid) or all("None" in ast.unparse(g) for g, _ in guard_exprs(ecfg, nid)), enc, w)
-    # 4. payload marker iff payload non-empty
-    tail = seq[4:]
-    okm = len(tail) == 2 and match("bytes([255])", tail[0][1]) is not None and chain(tail[1][1]) == "self.payload"
-    ctx.ob("the tail is the payload marker 0xFF followed by the payload", okm, enc, tail[0][2] if tail else enc.node)
-    N = Normalizer()
-    want = ("lt", Poly.const(0) - Poly.atom("len(self.payload)"))
-    for nid, e, w in tail:
-        facts = cmp_guard_nf(ecfg, nid, N)
-        truthy = guarded_by(ecfg, nid, "self.payload", True)
-        ctx.ob("marker and payload are emitted iff the payload is non-empty", want in facts or truthy, enc, w, detail="guards %s" % sorted(map(repr, facts)))
-    # reader
-    un = list(find("struct.unpack('!BBH', $r[:4])", dec.node))
-    ctx.ob("the reader unpacks the first four bytes as '!BBH'", len(un) == 1 and isinstance(un[0][1]["r"], ast.Name) and un[0][1]["r"].id == params(dec)[0], dec, un[0][0] if un else dec.node)
-    if un:
-        raw = params(dec)[0]
-        asg = cfg_of(dec).parent.get(id(un[0][0]))
-        names = [e.id for e in asg.targets[0].elts] if isinstance(asg, ast.Assign) and isinstance(asg.targets[0], ast.Tuple) and all(isinstance(e, ast.Name) for e in asg.targets[0].elts) else None
-        ctx.need(names and len(names) == 3, "reader: unpack target shape")
-        b0, codev, midv = names
-        env = norm.local_env(dec.node)
+    Message = g_(I, "message", "Message")
+    Type = g_(I, "numbers.types", "Type")
 
-        def field(e):
-            try:
-                return bitfields(e, env)
-            except NormError:
-                return None
-        # version check
-        vchk = [r for r in walk_no_nested(dec.node) if isinstance(r, ast.Raise)]
-        dcfg = cfg_of(dec)
-        vok = False
-        for r in vchk:
-            for g, pol in guard_exprs(dcfg, dcfg.loc1(r)):
-                if isinstance(g, ast.Compare) and len(g.ops) == 1 and isinstance(g.ops[0], (ast.NotEq, ast.Eq)) and isinstance(g.comparators[0], ast.Constant) and g.comparators[0].value == 1:
-                    if field(g.left) == [(b0, 6, 2, 0)] and (pol == isinstance(g.ops[0], ast.NotEq)):
-                        vok = True
-        ctx.ob("the reader rejects a version field (bits 7..6) different from 1", vok, dec, dec.node, construct="version check in Message.decode")
-        # mtype / tkl / token / options
-        stores = {}
-        for n in walk_no_nested(dec.node):
-            if isinstance(n, ast.Assign) and len(n.targets) == 1 and isinstance(n.targets[0], ast.Attribute) and isinstance(n.targets[0].value, ast.Name):
-                stores[n.targets[0].attr] = n
-        mt = stores.get("mtype")
-        okt = False
-        if mt is not None:
-            tb = match("Type($x)", mt.value)
-            okt = tb is not None and field(tb["x"]) == [(b0, 4, 2, 0)]
-        ctx.ob("the reader takes the type from bits 5..4", okt, dec, mt if mt is not None else dec.node)
-        tk = stores.get("token")
-        okk = False
-        tkl_expr = None
-        if tk is not None:
-            sb = match("%s[4:$hi]" % raw, tk.value)
-            if sb is not None:
-                mb = match("4 + $t", sb["hi"]) or match("$t + 4", sb["hi"])
-                if mb is not None and field(mb["t"]) == [(b0, 0, 4, 0)]:
-                    okk = True
-                    tkl_expr = mb["t"]
-        ctx.ob("the reader takes TKL from bits 3..0 and the token from bytes 4..4+TKL", okk, dec, tk if tk is not None else dec.node)
-        pl = stores.get("payload")
-        oko = False
-        if pl is not None and tkl_expr is not None:
-            ob = match("$m.opt.decode(%s[$lo:])" % raw, pl.value)
-            if ob is not None:
-                mb = match("4 + $t", ob["lo"]) or match("$t + 4", ob["lo"])
-                oko = mb is not None and same(mb["t"], tkl_expr)
-        ctx.ob("options and payload are parsed from the bytes after the token", oko, dec, pl if pl is not None else dec.node)
-        ctor = [cc for cc in calls_in(dec.node) if (call_name(cc) or "") in ("Message", "cls")]
-        okc = any(any(k.arg == "code" and isinstance(k.value, ast.Name) and k.value.id == codev for k in cc.keywords) for cc in ctor)
-        ctx.ob("the code byte becomes the message code", okc, dec, ctor[0] if ctor else dec.node)
-        md = stores.get("mid")
-        ctx.ob("the 16-bit field becomes the message ID", md is not None and isinstance(md.value, ast.Name) and md.value.id == midv, dec, md if md is not None else dec.node)
+    # ---- writer: messages are built the way the library's users build them (constructor, then the public attributes)
+    def build(mtype, code, mid, token, payload, opts):
+        m = I.call(Message, [], {"code": code, "payload": payload})
+        I.setattr(m, "mtype", I.call(Type, [mtype], {}))
+        I.setattr(m, "mid", mid)
+        I.setattr(m, "token", token)
+        # how options are encoded is the business of clause d; here they are opaque options added through the public API
+        for num, data in opts:
+            I.call(I.getattr(I.getattr(m, "opt"), "add_option"), [opaque_option(I, num, data)], {})
+        return m
 
+    o = K.run(I, Message)
+    ver = I.getattr(o.value, "version") if o.ok else None
+    ctx.ob("the version written is the constant 1", o.ok and ver == 1, init, init.node, construct="Message().version", detail="Message() %s, version %r" % (o.describe() if not o.ok else "constructed", ver))
+    vectors = []
+    for mtype in range(4):
+        for tkl in range(9):
+            vectors.append((mtype, 1 + 17 * tkl, 0x0102 + 0x1110 * tkl, bytes(range(0xA0, 0xA0 + tkl)), b"", ()))
+    for code in (0, 1, 4, 69, 132, 165, 255):
+        for mid in (0, 1, 0x00FF, 0xFF00, 0x1234, 0xFFFF):
+            vectors.append((code % 4, code, mid, b"\x07", b"", ()))
+    for payload in (b"", b"\xff", b"p", b"\x00" * 3, bytes(range(200))):
+        for opts in ((), ((11, b"a"),), ((1, b"\x22\x33"), (4, b""))):
+            vectors.append((1, 2, 0xBEEF, b"tk", payload, opts))
+            vectors.append((2, 68, 0x0001, b"", payload, opts))
+    byte0, codemid, middle, tail = [], [], [], []
+    for mtype, code, mid, token, payload, opts in vectors:
+        optbytes = ref_options(list(opts))
+        what = "type %d code %d mid %#06x token %s options %s payload %d byte(s)" % (mtype, code, mid, token.hex() or "-", optbytes.hex() or "-", len(payload))
+        want = ref_message(mtype, code, mid, token, optbytes, payload)
+        r = K.attempt(I, lambda: I.call(I.getattr(build(mtype, code, mid, token, payload, opts), "encode"), [], {}))
+        if not r.ok or not isinstance(r.value, (bytes, bytearray)):
+            for lst in (byte0, codemid, middle, tail):
+                lst.append((what, r.describe(), want.hex()))
+            continue
+        got = bytes(r.value)
+        k = 4 + len(token) + len(optbytes)
+        byte0.append((what, got[:1].hex(), want[:1].hex()))
+        codemid.append((what, got[1:4].hex(), want[1:4].hex()))
+        middle.append((what, got[4:k].hex(), want[4:k].hex()))
+        tail.append((what, got[k:].hex(), want[k:].hex()))
+    ctx.floor("header writer vectors", len(vectors), 100)
+    d = first_diff(byte0)
+    ctx.ob("first header byte is Ver(2 bits at 7..6) | T(2 bits at 5..4) | TKL(4 bits at 3..0)", d is None, enc, enc.node, construct="Message.encode first byte", detail=d)
+    d = first_diff(codemid)
+    ctx.ob("bytes 1..3 are Code and Message ID in network byte order", d is None, enc, enc.node, construct="Message.encode code and message ID", detail=d)
+    d = first_diff(middle)
+    ctx.ob("header is followed by the token, then the options", d is None, enc, enc.node, construct="Message.encode token and options", detail=d)
+    d = first_diff(tail)
+    ctx.ob("the payload marker 0xFF and the payload are emitted iff the payload is non-empty", d is None, enc, enc.node, construct="Message.encode payload marker", detail=d)
 
-RFC_NIBBLE = [  # RFC 7252 section 3.1: (lo, hi, nibble, extension bytes, offset)
+    # ---- reader
+    decode = I.getattr(Message, "decode")
+    bad_version = []
+    for b0 in range(256):
+        if (b0 >> 6) == 1:
+            continue
+        for rest in (b"\x01\x00\x01", b"\x01\x00\x01" + bytes(15) + b"\xffpl"):
+            r = K.run(I, decode, bytes([b0]) + rest)
+            bad_version.append(("first byte %#04x" % b0, "rejected" if r.raised(ALLOWED) else r.describe(), "rejected"))
+    d = first_diff(bad_version)
+    ctx.ob("the reader rejects a version field (bits 7..6) different from 1", d is None, dec, dec.node, construct="version check in Message.decode", detail=d)
+    f_type, f_token, f_rest, f_code, f_mid = [], [], [], [], []
+    rvectors = [(mtype, code, mid, token, [], payload) for mtype, code, mid, token, payload, opts in vectors if not opts]
+    rvectors.append((0, 1, 0x4321, b"\x01\x02\x03", [(1, b"if"), (4, b"etag"), (4, b"e2"), (2000, b"x" * 14)], b"body"))
+    rvectors.append((3, 0, 0x0100, b"", [(2000, b"")], b""))
+    for mtype, code, mid, token, opts, payload in rvectors:
+        what = "type %d code %d mid %#06x token %s %d option(s) payload %d byte(s)" % (mtype, code, mid, token.hex() or "-", len(opts), len(payload))
+        raw = ref_message(mtype, code, mid, token, ref_options(opts), payload)
+        r = K.run(I, decode, raw)
+        if not r.ok:
+            for lst in (f_type, f_token, f_rest, f_code, f_mid):
+                lst.append((what, r.describe(), "parsed"))
+            continue
+        m = r.value
+
+        def field(name):
+            o2 = K.attempt(I, lambda: I.getattr(m, name))
+            return o2.value if o2.ok else o2.describe()
+        mt = field("mtype")
+        want_mt = I.call(Type, [mtype], {})
+        f_type.append((what, "%r%s" % (mt, "" if mt is want_mt else " (not the Type member)"), "%r" % (want_mt,)))
+        f_token.append((what, _hex(field("token")), token.hex()))
+        got_opts = K.attempt(I, lambda: [(int(I.getattr(x, "number")), bytes(I.call(I.getattr(x, "encode"), [], {}))) for x in I.iterate(I.call(I.getattr(I.getattr(m, "opt"), "option_list"), [], {}))])
+        f_rest.append((what, "%s / %s" % (got_opts.value if got_opts.ok else got_opts.describe(), _hex(field("payload"))), "%s / %s" % (sorted(opts, key=lambda x: x[0]), payload.hex())))
+        cd = field("code")
+        f_code.append((what, repr(int(cd)) if isinstance(cd, int) else repr(cd), repr(code)))
+        md = field("mid")
+        f_mid.append((what, repr(md), repr(mid)))
+    ctx.floor("header reader vectors", len(rvectors), 80)
+    d = first_diff(f_type)
+    ctx.ob("the reader takes the type from bits 5..4", d is None, dec, dec.node, construct="Message.decode type", detail=d)
+    d = first_diff(f_token)
+    ctx.ob("the reader takes TKL from bits 3..0 and the token from bytes 4..4+TKL", d is None, dec, dec.node, construct="Message.decode token", detail=d)
+    d = first_diff(f_rest)
+    ctx.ob("options and payload are parsed from the bytes after the token", d is None, dec, dec.node, construct="Message.decode options and payload", detail=d)
+    d = first_diff(f_code)
+    ctx.ob("the code byte becomes the message code", d is None, dec, dec.node, construct="Message.decode code", detail=d)
+    d = first_diff(f_mid)
+    ctx.ob("the 16-bit field (network byte order) becomes the message ID", d is None, dec, dec.node, construct="Message.decode message ID", detail=d)
+
+# ---------------------------------------------------------------------------
+# d: option delta/length nibble codec
+
+RFC_ARMS = [  # RFC 7252 section 3.1: (lo, hi, nibble, extension bytes, offset)
     (0, 12, None, 0, 0),
     (13, 268, 13, 1, 13),
     (269, 65804, 14, 2, 269),
 ]
+TABLE_MAX = 65804
 
 
-def returns_with_intervals(fi, var):
-    """[(return node, (lo, hi)) ] where the interval is the set of `var` values
-    for which this return is reached (conjunction of dominating guards that
-    mention only var and constants)."""
-    cfg = cfg_of(fi)
-    N = Normalizer()
-    out = []
-    for r in [n for n in walk_no_nested(fi.node) if isinstance(n, (ast.Return, ast.Raise))]:
-        nid = cfg.loc1(r)
-        conj = []
-        for e, pol in guard_exprs(cfg, nid):
-            try:
-                cnf = N.cmp(e)
-            except NormError:
-                return None
-            conj.append(cnf if pol else N.negate(cnf))
-        # eq negations ('ne') cannot be intervals: evaluate by enumeration for small sets
-        iv = interval_of([c for c in conj if c[0] in ("lt", "eq") and isinstance(c[1], Poly) and c[1].atoms() <= {var}], var)
-        nes = [c for c in conj if c[0] == "ne"]
-        out.append((r, iv, nes, conj))
+def int_constants(*fis):
+    """integer constants of the functions (helpers are expanded in the canonical form) and of the module-level
+    assignments of their modules (tables the functions may be driven by)"""
+    out = set()
+    roots = [fi.node for fi in fis]
+    for m in {id(fi.module): fi.module for fi in fis}.values():
+        roots.extend(st for st in m.tree.body if isinstance(st, (ast.Assign, ast.AnnAssign)))
+    for r in roots:
+        for n in ast.walk(r):
+            if isinstance(n, ast.Constant) and isinstance(n.value, int) and not isinstance(n.value, bool) and abs(n.value) < 1 << 20:
+                out.add(n.value)
     return out
+
+
+def nibble_points(ctx, exhaustive):
+    """the values the nibble codec is evaluated on.  Thorough tier: every value of the table and a margin around it.
+    Quick tier: every value within 40 of a breakpoint -- of the RFC table, of the byte widths, and of *every integer
+    constant that occurs in the two functions* (a shifted boundary or offset in the code is a constant in the code,
+    so its neighbourhood is covered whatever it was changed to), shifted by the RFC offsets as well, plus a sweep."""
+    if exhaustive:
+        return list(range(-300, TABLE_MAX + 600)) + [1 << 16 | 5, 1 << 20, -(1 << 16)]
+    wf = ctx.prog.func("options._write_extended_field_value")
+    rf = ctx.prog.func("options._read_extended_field_value")
+    centres = {0, 12, 13, 268, 269, 255, 256, 65535, 65536, TABLE_MAX, TABLE_MAX + 1} | int_constants(wf, rf)
+    centres |= {c + o for c in list(centres) for o in (13, 269, -13, -269)}
+    pts = set(range(0, TABLE_MAX + 1, 41)) | {1 << 20, -(1 << 16), 70000, 131072 + 269}
+    for c_ in centres:
+        pts.update(range(c_ - 40, c_ + 41))
+    return sorted(p for p in pts if -400 <= p <= TABLE_MAX + 70000 or p in (1 << 20, -(1 << 16)))
+
+
+def check_nibble_codec(ctx, exhaustive):
+    I = interp(ctx)
+    wf = ctx.prog.func("options._write_extended_field_value")
+    rf = ctx.prog.func("options._read_extended_field_value")
+    write = g_(I, "options", "_write_extended_field_value")
+    read = g_(I, "options", "_read_extended_field_value")
+    pts = nibble_points(ctx, exhaustive)
+    ctx.floor("values the nibble codec is evaluated on", len(pts), 1800)
+    tag = " (every value)" if exhaustive else ""
+    # ---- writer
+    cover = {a[0]: [] for a in RFC_ARMS}
+    encod = {a[0]: [] for a in RFC_ARMS}
+    outside = []
+    for v in pts:
+        r = K.run(I, write, v)
+        want = ref_ext(v)
+        if want is None:
+            outside.append(("value %d" % v, "refused" if not r.ok else r.describe(), "refused"))
+            continue
+        lo = next(a[0] for a in RFC_ARMS if a[0] <= v <= a[1])
+        if not r.ok:
+            cover[lo].append(("value %d" % v, r.describe(), "encoded"))
+            continue
+        try:
+            got = (r.value[0], bytes(r.value[1])) if len(r.value) == 2 else r.value
+        except (TypeError, ValueError, IndexError):
+            got = r.value
+        encod[lo].append(("value %d" % v, "nibble %r extension %s" % (got[0], _hex(got[1])) if isinstance(got, tuple) and len(got) == 2 else repr(got), "nibble %r extension %s" % (want[0], want[1].hex())))
+    for lo, hi, rn, rw, roff in RFC_ARMS:
+        nm = rn if rn is not None else "inline"
+        d = first_diff(cover[lo])
+        ctx.ob("writer arm for values %d..%d covers exactly that range%s" % (lo, hi, tag), d is None, wf, wf.node, construct="_write_extended_field_value arm nibble %s" % nm, detail=d)
+        d = first_diff(encod[lo])
+        ctx.ob("writer arm %d..%d uses nibble %s, %d big-endian extension byte(s), offset %d%s" % (lo, hi, rn if rn is not None else "=value", rw, roff, tag), d is None, wf, wf.node,
+               construct="_write_extended_field_value arm nibble %s encoding" % nm, detail=d)
+    d = first_diff(outside)
+    ctx.ob("values outside the table are refused by the writer%s" % tag, d is None and bool(outside), wf, wf.node, construct="def _write_extended_field_value: out of range", detail=d)
+    # ---- reader (inputs from the reference writer: independent of the repository's writer)
+    arms = {a[0]: [] for a in RFC_ARMS}
+    for v in pts:
+        want = ref_ext(v)
+        if want is None:
+            continue
+        lo = next(a[0] for a in RFC_ARMS if a[0] <= v <= a[1])
+        for tail_ in (b"", b"\x99\x88\x77"):
+            r = K.run(I, read, want[0], want[1] + tail_)
+            if r.ok:
+                try:
+                    got = "value %r rest %s" % (r.value[0], _hex(bytes(r.value[1]))) if len(r.value) == 2 else repr(r.value)
+                except (TypeError, ValueError, IndexError):
+                    got = repr(r.value)
+            else:
+                got = r.describe()
+            arms[lo].append(("nibble %d data %s" % (want[0], (want[1] + tail_).hex() or "-"), got, "value %r rest %s" % (v, tail_.hex())))
+    d = first_diff(arms[0])
+    ctx.ob("reader returns nibbles 0..12 unchanged and consumes nothing%s" % tag, d is None, rf, rf.node, construct="_read_extended_field_value inline arm", detail=d)
+    for lo, hi, rn, rw, roff in RFC_ARMS[1:]:
+        d = first_diff(arms[lo])
+        ctx.ob("reader arm for nibble %d reads %d byte(s) big endian, adds %d and consumes exactly those bytes%s" % (rn, rw, roff, tag), d is None, rf, rf.node,
+               construct="_read_extended_field_value arm nibble %d" % rn, detail=d)
+        short = []
+        for k in range(rw):
+            r = K.run(I, read, rn, bytes([0x21] * k))
+            short.append(("nibble %d with %d byte(s) left" % (rn, k), "rejected" if r.raised(ALLOWED) else r.describe(), "rejected"))
+        d = first_diff(short)
+        ctx.ob("reader arm for nibble %d is reached only with at least %d byte(s) left (otherwise UnparsableMessage)" % (rn, rw), d is None, rf, rf.node,
+               construct="_read_extended_field_value arm nibble %d length guard" % rn, detail=d)
+    r15 = []
+    for data in (b"", b"\x00", b"\x01\x02\x03"):
+        r = K.run(I, read, 15, data)
+        r15.append(("nibble 15 data %s" % (data.hex() or "-"), "rejected" if r.raised(ALLOWED) else r.describe(), "rejected"))
+    d = first_diff(r15)
+    ctx.ob("nibble 15 is a format error", d is None, rf, rf.node, construct="_read_extended_field_value nibble 15", detail=d)
+    return I
+
+
+WRITER_SCENARIOS = [
+    ("option byte is delta nibble (bits 7..4) | length nibble (bits 3..0)", "Options.encode option byte", [[(5, b"abc")], [(12, b"x" * 12)], [(1, b"")], [(9, b"123456789")]]),
+    ("the delta is the option number minus the previous option number (starting from 0)", "Options.encode deltas", [[(1, b"a"), (4, b"b"), (4, b"c"), (11, b"d"), (60, b"e")], [(7, b""), (8, b""), (20, b"")]]),
+    ("per option the writer emits: option byte, extended delta, extended length, value", "Options.encode emission order", [[(300, b"v" * 20)], [(20, b"w" * 300)], [(14, b"u" * 13), (14 + 270, b"t" * 270)]]),
+    ("options are emitted sorted by option number (non-negative deltas), same-number options in insertion order", "Options.encode ordering",
+     [[(11, b"b"), (3, b"h"), (11, b"a"), (60, b"z"), (3, b"g")], [(2000, b"2"), (35, b"1"), (2000, b"3"), (1, b"0")]]),
+    ("deltas and lengths at the extended-field boundaries 12/13/268/269/65804 use the RFC encoding", "Options.encode boundaries",
+     [[(12, b"a" * 12), (12 + 13, b"b" * 13), (12 + 13 + 268, b"c" * 268), (12 + 13 + 268 + 269, b"d" * 269)], [(65804, b"")], [(1, b""), (1 + 65804, b"x")]]),
+]
+
+READER_SCENARIOS = [
+    ("the reader resolves the delta nibble (bits 7..4) first, then the length nibble (bits 3..0), as written", "Options.decode option byte", [([(5, b"abc")], b"pl"), ([(1, b"")], b""), ([(300, b"v" * 20)], b"x"), ([(20, b"w" * 300)], b"")]),
+    ("the reader accumulates deltas into the option number", "Options.decode deltas", [([(1, b"a"), (4, b"b"), (4, b"c"), (11, b"d"), (60, b"e")], b""), ([(2000, b"2"), (2000, b"3"), (2013, b"4"), (67817, b"5")], b"p")]),
+    ("the option value is the next `length` bytes and the reader advances by exactly `length` bytes", "Options.decode values", [([(4, b"0123456789ab"), (4, b"c" * 13), (5, b""), (2100, b"d" * 269), (2100, b"e" * 268)], b"tail")]),
+    ("a 0xFF byte at an option boundary ends the options; the payload is everything after it", "Options.decode payload marker", [([], b"only payload"), ([(4, b"\xff\xff")], b"\xff\xffp"), ([(1, b"x")], b""), ([], b"")]),
+]
+
+MALFORMED = [
+    ("value shorter than announced", b"\x45abcd"), ("extended delta missing", b"\xd0"), ("extended length missing", b"\x0e\x01"), ("delta nibble 15 without length 15", b"\xf0"),
+    ("length nibble 15", b"\x1f"), ("truncated two-byte extension", b"\xe0\x01"), ("second option truncated", b"\x11a\x12b"),
+]
 
 
 @R.clause("C01.d", "option delta/length nibble codec: writer table = reader table = RFC 7252 section 3.1")
 def d(ctx):
-    wf = ctx.prog.func("options._write_extended_field_value")
-    rf = ctx.prog.func("options._read_extended_field_value")
-    wv = params(wf)[0]
-    rv, rraw = params(rf)[0], params(rf)[1]
-    # ---- writer arms
-    warms = []
-    rows = returns_with_intervals(wf, wv)
-    ctx.need(rows is not None, "writer guards not interpretable")
-    for r, iv, nes, conj in rows:
-        if isinstance(r, ast.Raise):
-            continue
-        tb = match("($n, $ext)", r.value)
-        ctx.need(tb is not None and iv is not None and not nes, "writer arm is not `return (nibble, extension)` under an interval guard")
-        if isinstance(tb["ext"], ast.Constant) and tb["ext"].value == b"":
-            nib = "inline" if isinstance(tb["n"], ast.Name) and tb["n"].id == wv else consteval(tb["n"])
-            warms.append((r, iv, nib, 0, 0, None))
-        else:
-            eb = match("($x).to_bytes($w, $order)", tb["ext"])
-            ctx.need(eb is not None, "writer extension is not (value - offset).to_bytes(width, order)")
-            p = Normalizer().poly(eb["x"])
-            off = -(p - Poly.atom(wv)).const_value() if (p - Poly.atom(wv)).is_const() else None
-            warms.append((r, iv, consteval(tb["n"]), consteval(eb["w"]), off, consteval(eb["order"])))
-    ctx.floor("writer arms", len(warms), 3)
-    warms.sort(key=lambda a: a[1][0])
-    for (r, iv, nib, w, off, order), ref in zip(warms, RFC_NIBBLE):
-        lo, hi, rn, rw, roff = ref
-        ctx.ob("writer arm for values %d..%d covers exactly that range" % (lo, hi), (iv[0], iv[1]) == (lo, hi), wf, r,
-               construct="_write_extended_field_value arm nibble %s" % (rn if rn is not None else "inline"), detail="covers %s..%s, RFC 7252 section 3.1 says %d..%d" % (iv[0], iv[1], lo, hi))
-        ctx.ob("writer arm %d..%d uses nibble %s, %d extension byte(s), offset %d" % (lo, hi, rn if rn is not None else "=value", rw, roff),
-               (nib == (rn if rn is not None else "inline")) and w == rw and (off == roff or rw == 0), wf, r,
-               construct="_write_extended_field_value arm nibble %s encoding" % (rn if rn is not None else "inline"), detail="nibble %s width %s offset %s" % (nib, w, off))
-        if rw:
-            ctx.ob("extension is big endian", order == "big", wf, r, construct="_write_extended_field_value arm nibble %s byte order" % rn)
-    ctx.ob("writer has exactly the three RFC arms", len(warms) == 3, wf, wf.node, construct="def _write_extended_field_value")
-    # values outside the table raise
-    raises_w = [r for r, iv, nes, conj in rows if isinstance(r, ast.Raise)]
-    ctx.ob("values outside the table are refused by the writer", bool(raises_w), wf, wf.node, construct="def _write_extended_field_value: out of range")
-    # ---- reader arms
-    rrows = returns_with_intervals(rf, rv)
-    ctx.need(rrows is not None, "reader guards not interpretable")
-    rarms = {}
-    for r, iv, nes, conj in rrows:
-        if isinstance(r, ast.Raise) or iv is None:
-            continue
-        tb = match("($val, $rest)", r.value)
-        ctx.need(tb is not None, "reader arm is not `return (value, rest)`")
-        if isinstance(tb["val"], ast.Name) and tb["val"].id == rv:
-            rarms[(iv[0], iv[1])] = (r, 0, 0, None, tb["rest"])
-            continue
-        p = None
-        width = None
-        order = None
-        off = None
-        val = tb["val"]
-        ob = match("$a + $k", val)
-        base = val
-        if ob is not None:
-            try:
-                off = consteval(ob["k"])
-                base = ob["a"]
-            except NormError:
-                try:
-                    off = consteval(ob["a"])
-                    base = ob["k"]
-                except NormError:
-                    off = None
-        if match("%s[0]" % rraw, base) is not None:
-            width, order = 1, "big"
-        else:
-            fb = match("int.from_bytes(%s[:$w], $order)" % rraw, base)
-            if fb is not None:
-                width, order = consteval(fb["w"]), consteval(fb["order"])
-        rarms[(iv[0], iv[1])] = (r, width, off, order, tb["rest"])
-    ctx.floor("reader arms", len(rarms), 3)
-    inline = [k for k in rarms if rarms[k][1] == 0]
-    ctx.ob("reader returns nibbles 0..12 unchanged", inline == [(0, 12)], rf, rarms[inline[0]][0] if inline else rf.node, construct="_read_extended_field_value inline arm", detail=str(inline))
-    for lo, hi, rn, rw, roff in RFC_NIBBLE[1:]:
-        arm = rarms.get((rn, rn))
-        ok = arm is not None and arm[1] == rw and arm[2] == roff and arm[3] == "big"
-        ctx.ob("reader arm for nibble %d reads %d byte(s) big endian and adds %d" % (rn, rw, roff), ok, rf, arm[0] if arm else rf.node,
-               construct="_read_extended_field_value arm nibble %d" % rn, detail=str(arm[1:4]) if arm else "missing")
-        if arm is not None:
-            sb = match("%s[$k:]" % rraw, arm[4])
-            okr = sb is not None and consteval(sb["k"]) == rw
-            ctx.ob("reader arm for nibble %d consumes exactly %d byte(s)" % (rn, rw), okr, rf, arm[0], construct="_read_extended_field_value arm nibble %d rest" % rn)
-            # truncation guard
-            rcfg = cfg_of(rf)
-            Nn = Normalizer()
-            want = Nn.negate(("lt", Poly.atom("len(%s)" % rraw) - Poly.const(rw)))
-            facts = cmp_guard_nf(rcfg, rcfg.loc1(arm[0]), Nn)
-            ctx.ob("reader arm for nibble %d is reached only with at least %d byte(s) left (otherwise UnparsableMessage)" % (rn, rw), want in facts, rf, arm[0],
-                   construct="_read_extended_field_value arm nibble %d length guard" % rn)
-    # nibble 15 raises
-    r15 = [r for r, iv, nes, conj in rrows if isinstance(r, ast.Raise) and not guard_has_len(conj)]
-    ctx.ob("nibble 15 is a format error", bool(r15), rf, rf.node, construct="_read_extended_field_value nibble 15")
-    # writer/reader agreement on the maximum: reader reach = 269 + 65535
-    # ---- Options.encode / decode
+    I = check_nibble_codec(ctx, exhaustive=False)
     enc = ctx.prog.func("options.Options.encode")
     dec = ctx.prog.func("options.Options.decode")
-    env = norm.local_env(enc.node)
-    ob_ = [c for c, b in find("bytes([$x])", enc.node)]
-    okb = False
-    lay = None
-    dl = ln = None
-    for c in ob_:
-        try:
-            lay = sorted(bitfields(c.args[0].elts[0]), key=lambda f: -f[3])
-        except NormError:
-            continue
-        if len(lay) == 2 and lay[0][1:] == (0, 4, 4) and lay[1][1:] == (0, 4, 0):
-            okb = True
-            dl, ln = lay[0][0], lay[1][0]
-    ctx.ob("option byte is delta nibble (bits 7..4) | length nibble (bits 3..0)", okb, enc, ob_[0] if ob_ else enc.node, detail=str(lay))
-    if okb:
-        # dl and ln come from _write_extended_field_value(number - previous) and (len(optiondata))
-        calls = {}
-        for n in walk_no_nested(enc.node):
-            if isinstance(n, ast.Assign) and isinstance(n.targets[0], ast.Tuple) and len(n.targets[0].elts) == 2 and match("_write_extended_field_value($v)", n.value) is not None:
-                calls[n.targets[0].elts[0].id] = (n, n.targets[0].elts[1].id, n.value.args[0])
-        okd = dl in calls and ln in calls
-        ctx.ob("both nibbles come from the extended-field writer", okd, enc, enc.node, construct="Options.encode nibble sources")
-        if okd:
-            dnode, dext, dval = calls[dl]
-            lnode, lext, lval = calls[ln]
-            loopvar = None
-            for n in walk_no_nested(enc.node):
-                if isinstance(n, ast.For) and isinstance(n.target, ast.Name):
-                    loopvar = n.target.id
-                    loop = n
-            db = match("%s.number - $prev" % loopvar, dval) if loopvar else None
-            prev_ok = False
-            if db is not None and isinstance(db["prev"], ast.Name):
-                ws = writes_to_name(enc.node, db["prev"].id)
-                prev_ok = any(isinstance(w, ast.Assign) and chain(w.value) == loopvar + ".number" and contains(loop, w) for w in ws) and \
-                    any(isinstance(w, ast.Assign) and isinstance(w.value, ast.Constant) and w.value.value == 0 and not contains(loop, w) for w in ws)
-            ctx.ob("the delta is the option number minus the previous option number (starting from 0)", db is not None and prev_ok, enc, dnode)
-            lb = match("len($d)", lval)
-            okl = lb is not None and isinstance(lb["d"], ast.Name) and match("%s.encode()" % loopvar, resolve_local(enc.node, lb["d"])) is not None
-            ctx.ob("the length is the length of the encoded option value", okl, enc, lnode)
-            # emission order: byte, ext delta, ext length, value
-            ecfg = cfg_of(enc)
-            apps = [(ecfg.loc1(c), b["x"]) for c, b in find("$l.append($x)", enc.node)]
-            apps.sort()
-            order = [chain(x) if chain(x) else ("byte" if match("bytes([$y])", x) is not None else "?") for _, x in apps]
-            want = ["byte", dext, lext, lb["d"].id if okl else "?"]
-            ctx.ob("per option the writer emits: option byte, extended delta, extended length, value", order == want, enc, enc.node, construct="Options.encode emission order", detail="%s" % order)
-            ctx.ob("options are emitted in the order of option_list()", match("self.option_list()", loop.iter) is not None, enc, loop, construct="for option in self.option_list()")
+    Options = g_(I, "options", "Options")
+    ON = g_(I, "numbers.optionnumbers", "OptionNumber")
+    for desc, key, scenarios in WRITER_SCENARIOS:
+        rows = []
+        for opts in scenarios:
+            def go():
+                o = I.call(Options, [], {})
+                for num, data in opts:
+                    I.call(I.getattr(o, "add_option"), [opaque_option(I, num, data)], {})
+                return bytes(I.call(I.getattr(o, "encode"), [], {}))
+            r = K.attempt(I, go)
+            rows.append(("options %s" % [(n, len(v)) for n, v in opts], r.value.hex() if r.ok else r.describe(), ref_options(opts).hex()))
+        df = first_diff(rows)
+        ctx.ob(desc, df is None, enc, enc.node, construct=key, detail=df)
+
+    def parse(raw):
+        o = I.call(Options, [], {})
+        rest = I.call(I.getattr(o, "decode"), [raw], {})
+        got = [(int(I.getattr(x, "number")), bytes(I.call(I.getattr(x, "encode"), [], {}))) for x in I.iterate(I.call(I.getattr(o, "option_list"), [], {}))]
+        return got, bytes(rest)
+
+    for desc, key, scenarios in READER_SCENARIOS:
+        rows = []
+        for opts, payload in scenarios:
+            raw = ref_options(opts) + (b"\xff" + payload if payload else b"")
+            r = K.attempt(I, lambda: parse(raw))
+            rows.append(("option bytes %s" % (raw[:24].hex() + (".." if len(raw) > 24 else "")), "%s payload %s" % (r.value[0], r.value[1].hex()) if r.ok else r.describe(),
+                         "%s payload %s" % (sorted(opts, key=lambda x: x[0]), payload.hex())))
+        df = first_diff(rows)
+        ctx.ob(desc, df is None, dec, dec.node, construct=key, detail=df)
+    rows = []
+    for what, raw in MALFORMED:
+        assert ref_parse_options(raw) is None
+        r = K.attempt(I, lambda: parse(raw))
+        rows.append(("%s (%s)" % (what, raw.hex()), "rejected" if r.raised(ALLOWED) else r.describe(), "rejected"))
+    df = first_diff(rows)
+    ctx.ob("option bytes that are not well-formed under RFC 7252 section 3.1 are rejected with UnparsableMessage", df is None, dec, dec.node, construct="Options.decode malformed", detail=df)
+    # option_list is the order both encode and the users see
     ol = ctx.prog.func("options.Options.option_list")
-    srt = [c for c in calls_in(ol.node) if call_name(c) == "sorted"]
-    oks = False
-    for c in srt:
-        key = next((k.value for k in c.keywords if k.arg == "key"), None)
-        if match("self._options.values()", c.args[0]) is not None and isinstance(key, ast.Lambda) and match("$x[0].number", key.body) is not None:
-            oks = True
-        if match("self._options.items()", c.args[0]) is not None or match("self._options", c.args[0]) is not None:
-            oks = oks or key is None
-    ctx.ob("option_list yields options sorted by option number (non-negative deltas), same-number options in insertion order", oks, ol, srt[0] if srt else ol.node)
-    # reader
-    dcfg = cfg_of(dec)
-    raw = params(dec)[0]
-    denv = {}
-    for n in walk_no_nested(dec.node):
-        if isinstance(n, ast.Assign) and len(n.targets) == 1 and isinstance(n.targets[0], ast.Name):
-            denv.setdefault(n.targets[0].id, []).append(n)
-    rd = []
-    for n in walk_no_nested(dec.node):
-        if isinstance(n, ast.Assign) and isinstance(n.targets[0], ast.Tuple) and match("_read_extended_field_value($v, $r)", n.value) is not None:
-            rd.append(n)
-    ctx.ob("the reader resolves two extended fields per option", len(rd) == 2, dec, rd[0] if rd else dec.node)
-    if len(rd) == 2:
-        rd.sort(key=lambda n: dcfg.loc1(n))
-        first, second = rd
-        fv, sv = first.value.args[0], second.value.args[0]
-
-        def nib_of(e):
-            v = e
-            if isinstance(e, ast.Name):
-                cands = [w for w in denv.get(e.id, []) if not isinstance(w.targets[0], ast.Tuple)]
-                if len(cands) == 1:
-                    v = cands[0].value
-            try:
-                return bitfields(v, {k: ws[0].value for k, ws in denv.items() if len(ws) == 1})
-            except NormError:
-                return None
-        f1, f2 = nib_of(fv), nib_of(sv)
-        okf = f1 is not None and f2 is not None and len(f1) == 1 and len(f2) == 1 and f1[0][1:] == (4, 4, 0) and f2[0][1:] == (0, 4, 0) and f1[0][0] == f2[0][0]
-        ctx.ob("the reader resolves the delta nibble (bits 7..4) first, then the length nibble (bits 3..0), as written", okf, dec, first, detail="%s then %s" % (f1, f2))
-        dname = first.targets[0].elts[0].id
-        lname = second.targets[0].elts[0].id
-        acc = [n for n in walk_no_nested(dec.node) if isinstance(n, ast.AugAssign) and isinstance(n.op, ast.Add) and isinstance(n.value, ast.Name) and n.value.id == dname]
-        acc += [n for n in walk_no_nested(dec.node) if isinstance(n, ast.Assign) and isinstance(n.value, ast.BinOp) and isinstance(n.value.op, ast.Add) and dname in names_in(n.value) and chain(n.targets[0]) in names_in(n.value)]
-        ctx.ob("the reader accumulates deltas into the option number", len(acc) == 1, dec, acc[0] if acc else dec.node)
-        co = [c for c in calls_in(dec.node) if isinstance(c.func, ast.Attribute) and c.func.attr == "create_option"]
-        okv = False
-        for c in co:
-            kw = next((k.value for k in c.keywords if k.arg == "decode"), None)
-            if kw is not None and match("%s[:%s]" % (raw, lname), kw) is not None and acc and chain(c.func.value) == chain(acc[0].target if isinstance(acc[0], ast.AugAssign) else acc[0].targets[0]):
-                okv = True
-        ctx.ob("the option value is the next `length` bytes, decoded by the accumulated option number's format", okv, dec, co[0] if co else dec.node)
-        adv = [n for n in walk_no_nested(dec.node) if isinstance(n, ast.Assign) and chain(n.targets[0]) == raw and match("%s[%s:]" % (raw, lname), n.value) is not None]
-        ctx.ob("the reader advances by exactly `length` bytes", len(adv) == 1, dec, adv[0] if adv else dec.node)
-        pm = [n for n in walk_no_nested(dec.node) if isinstance(n, ast.Return) and match("%s[1:]" % raw, n.value) is not None]
-        okp = any(guarded_by(dcfg, dcfg.loc1(r), "%s[0] == 255" % raw, True) for r in pm)
-        ctx.ob("a 0xFF byte at an option boundary ends the options; the payload is everything after it", okp, dec, pm[0] if pm else dec.node)
+    rows = []
+    for opts in ([(11, b"b"), (3, b"h"), (11, b"a"), (60, b"z"), (3, b"g")], [(5, b"")], []):
+        def go2():
+            o = I.call(Options, [], {})
+            for num, data in opts:
+                I.call(I.getattr(o, "add_option"), [opaque_option(I, num, data)], {})
+            return [(int(I.getattr(x, "number")), bytes(I.call(I.getattr(x, "encode"), [], {}))) for x in I.iterate(I.call(I.getattr(o, "option_list"), [], {}))]
+        r = K.attempt(I, go2)
+        rows.append(("options added as %s" % opts, repr(r.value) if r.ok else r.describe(), repr(sorted(opts, key=lambda x: x[0]))))
+    df = first_diff(rows)
+    ctx.ob("option_list yields options sorted by option number (non-negative deltas), same-number options in insertion order", df is None, ol, ol.node, construct="Options.option_list order", detail=df)
 
 
-def guard_has_len(conj):
-    return any(c[0] == "lt" and any(a.startswith("len(") for a in c[1].atoms()) for c in conj)
+@R.clause("C01.d", "nibble codec evaluated on every value of the table 0..65804 and a margin around it", tier="thorough")
+def d_thorough(ctx):
+    check_nibble_codec(ctx, exhaustive=True)
+
+# ---------------------------------------------------------------------------
+# e: per-format value codecs
+
+
+def uint_samples():
+    s = set(range(0, 600)) | {65535, 65536, 65537, 16777215, 16777216}
+    for k in range(1, 73):
+        s.update({(1 << k) - 1, 1 << k, (1 << k) + 1})
+    return sorted(s)
 
 
 @R.clause("C01.e", "per-format value codecs: encode and decode of each OptionType agree")
 def e(ctx):
+    I = interp(ctx)
     tm = ctx.prog.func("optiontypes._to_minimum_bytes")
-    v = params(tm, skip_self=False)[0]
-    rets = [n for n in walk_no_nested(tm.node) if isinstance(n, ast.Return)]
-    ok = False
-    if len(rets) == 1:
-        b = match("%s.to_bytes($n, 'big')" % v, rets[0].value)
-        if b is not None:
-            mb = match("($x + 7) // 8", b["n"])
-            ok = mb is not None and match("%s.bit_length()" % v, mb["x"]) is not None
-    ctx.ob("_to_minimum_bytes is the minimal big-endian rendering (ceil(bit_length/8) bytes)", ok, tm, rets[0] if rets else tm.node)
+    f_tm = g_(I, "optiontypes", "_to_minimum_bytes")
+    ON = g_(I, "numbers.optionnumbers", "OptionNumber")
+    rows = []
+    for v in uint_samples():
+        r = K.run(I, f_tm, v)
+        rows.append(("value %d" % v, _hex(r.value) if r.ok else r.describe(), ref_uint(v).hex()))
+    df = first_diff(rows)
+    ctx.ob("_to_minimum_bytes is the minimal big-endian rendering (ceil(bit_length/8) bytes)", df is None, tm, tm.node, construct="optiontypes._to_minimum_bytes", detail=df)
 
-    def single(fi, pat):
-        for n in walk_no_nested(fi.node):
-            if isinstance(n, (ast.Assign, ast.Return)) and n.value is not None:
-                b = match(pat, n.value)
-                if b is not None:
-                    return n, b
-        return None, None
+    def codec(clsname, number):
+        cls = g_(I, "optiontypes", clsname)
+        num = I.call(ON, [number], {})
+
+        def enc(value):
+            return K.attempt(I, lambda: bytes(I.call(I.getattr(I.call(cls, [num, value], {}), "encode"), [], {})))
+
+        def dec(raw):
+            def go():
+                o = I.call(cls, [num], {})
+                I.call(I.getattr(o, "decode"), [raw], {})
+                return I.getattr(o, "value"), bytes(I.call(I.getattr(o, "encode"), [], {}))
+            return K.attempt(I, go)
+        return enc, dec
+
+    def show(r, f=lambda v: repr(v)):
+        return f(r.value) if r.ok else r.describe()
+
+    # String: UTF-8 of exactly the value (no normalisation: the decoded message must equal the one serialised)
     so_e = ctx.prog.func("optiontypes.StringOption.encode")
-    so_d = ctx.prog.func("optiontypes.StringOption.decode")
-    ne, be = single(so_e, "self.value.encode($c)")
-    nd, bd = single(so_d, "$r.decode($c)")
-    okc = be is not None and bd is not None and same(be["c"], bd["c"]) and isinstance(be["c"], ast.Constant) and be["c"].value.lower().replace("-", "") == "utf8"
-    ctx.ob("String options are UTF-8 in both directions", okc and isinstance(nd, ast.Assign) and chain(nd.targets[0]) == "self.value", so_e, ne if ne is not None else so_e.node)
+    enc, dec = codec("StringOption", 11)
+    rows = []
+    for s_ in ("", "a", "temp", "\u00e9", "e\u0301", "\u212b", "\u2126", "n\u0303", "\uf900", "\u4e16\u754c", "\U0001f600", "a/b c%20", "\u00c5"):
+        raw = s_.encode("utf-8")
+        rows.append(("encode %a" % s_, show(enc(s_), _hex), raw.hex()))
+        rows.append(("decode %s" % raw.hex(), show(dec(raw), lambda v: "%a re-encoded %s" % (v[0], v[1].hex())), "%a re-encoded %s" % (s_, raw.hex())))
+    df = first_diff(rows)
+    ctx.ob("String options are the UTF-8 of the value in both directions", df is None, so_e, so_e.node, construct="StringOption codec", detail=df)
+    # Opaque: identity
     oo_e = ctx.prog.func("optiontypes.OpaqueOption.encode")
-    oo_d = ctx.prog.func("optiontypes.OpaqueOption.decode")
-    re_ = [n for n in walk_no_nested(oo_e.node) if isinstance(n, ast.Return)]
-    oke = len(re_) == 1 and chain(resolve_local(oo_e.node, re_[0].value)) == "self.value"
-    rd_ = [n for n in walk_no_nested(oo_d.node) if isinstance(n, ast.Assign) and chain(n.targets[0]) == "self.value"]
-    okd = len(rd_) == 1 and isinstance(rd_[0].value, ast.Name) and rd_[0].value.id == params(oo_d)[0]
-    ctx.ob("Opaque options are the identity in both directions", oke and okd, oo_e, re_[0] if re_ else oo_e.node)
-    for cls, tgt in (("UintOption", "self.value"), ("ContentFormatOption", "self._value")):
-        fe = ctx.prog.func("optiontypes.%s.encode" % cls)
-        fd = ctx.prog.func("optiontypes.%s.decode" % cls)
-        ne, be = single(fe, "_to_minimum_bytes(int(self.value))")
-        raw = params(fd)[0]
-        okd = False
-        for n in walk_no_nested(fd.node):
-            if isinstance(n, ast.Assign) and chain(n.targets[0]) == tgt:
-                val = resolve_local(fd.node, n.value)
-                inner = val
-                cb = match("ContentFormat($x)", val)
-                if cb is not None:
-                    inner = resolve_local(fd.node, cb["x"])
-                if match("int.from_bytes(%s, 'big')" % raw, inner) is not None:
-                    okd = True
-        ctx.ob("%s: minimal big-endian unsigned integer in both directions" % cls, be is not None and okd, fe, ne if ne is not None else fe.node)
+    enc, dec = codec("OpaqueOption", 4)
+    rows = []
+    for raw in (b"", b"\x00", b"\xff\xfe", bytes(range(256)), b"\xc3\x28"):
+        rows.append(("encode %s" % raw.hex(), show(enc(raw), _hex), raw.hex()))
+        rows.append(("decode %s" % raw.hex(), show(dec(raw), lambda v: "%s re-encoded %s" % (_hex(v[0]), v[1].hex())), "%s re-encoded %s" % (raw.hex(), raw.hex())))
+    df = first_diff(rows)
+    ctx.ob("Opaque options are the identity in both directions", df is None, oo_e, oo_e.node, construct="OpaqueOption codec", detail=df)
+    # Uint / ContentFormat: minimal big-endian unsigned integer
+    for clsname, number, samples in (("UintOption", 7, uint_samples()), ("ContentFormatOption", 12, [0, 1, 40, 41, 42, 47, 50, 60, 110, 255, 256, 10000, 65535])):
+        fe = ctx.prog.func("optiontypes.%s.encode" % clsname)
+        enc, dec = codec(clsname, number)
+        rows = []
+        for v in samples:
+            raw = ref_uint(v)
+            rows.append(("encode %d" % v, show(enc(v), _hex), raw.hex()))
+            for pad in (b"", b"\x00"):
+                if pad and (clsname != "UintOption" or v > 70000):
+                    continue
+                rows.append(("decode %s" % (pad + raw).hex(), show(dec(pad + raw), lambda x: "%d re-encoded %s" % (int(x[0]), x[1].hex())), "%d re-encoded %s" % (v, raw.hex())))
+        df = first_diff(rows)
+        ctx.ob("%s: minimal big-endian unsigned integer in both directions" % clsname, df is None, fe, fe.node, construct="%s codec" % clsname, detail=df)
+    # Block: NUM << 4 | M << 3 | SZX (RFC 7959 section 2.2)
     be_ = ctx.prog.func("optiontypes.BlockOption.encode")
     bd_ = ctx.prog.func("optiontypes.BlockOption.decode")
-    ne, b1 = single(be_, "_to_minimum_bytes($x)")
-    okw = False
-    lay = None
-    if b1 is not None:
-        try:
-            lay = sorted(bitfields(b1["x"], norm.local_env(be_.node)), key=lambda f: -f[3])
-            okw = [(f[0], f[3]) for f in lay] == [("self.value.block_number", 4), ("self.value.more", 3), ("self.value.size_exponent", 0)]
-        except NormError:
-            pass
-    ctx.ob("Block option writer: NUM << 4 | M << 3 | SZX (RFC 7959 section 2.2)", okw, be_, ne if ne is not None else be_.node, detail=str(lay))
-    raw = params(bd_)[0]
-    okr = False
-    rl = {}
-    for n in walk_no_nested(bd_.node):
-        if isinstance(n, ast.Call) and (call_name(n) or "").endswith("BlockwiseTuple"):
-            env = norm.local_env(bd_.node)
-            src = None
-            for k in n.keywords:
-                try:
-                    v_ = k.value
-                    if isinstance(v_, ast.Call) and chain(v_.func) == "bool":
-                        f = bitfields(v_.args[0], env)
-                    else:
-                        f = bitfields(v_, env)
-                    rl[k.arg] = f
-                except NormError:
-                    rl[k.arg] = None
-            if len(n.args) == 3:
-                for name, a_ in zip(("block_number", "more", "size_exponent"), n.args):
-                    try:
-                        rl[name] = bitfields(a_.args[0] if isinstance(a_, ast.Call) and chain(a_.func) == "bool" else a_, env)
-                    except NormError:
-                        rl[name] = None
-    try:
-        okr = rl.get("block_number") and rl["block_number"][0][1:] == (4, None, 0) and rl["more"][0][1:] == (3, 1, 3) and rl["size_exponent"][0][1:] == (0, 3, 0) and \
-            len({rl[k][0][0] for k in rl}) == 1
-    except (TypeError, IndexError, KeyError):
-        okr = False
-    ctx.ob("Block option reader: NUM = value >> 4, M = bit 3, SZX = bits 2..0", bool(okr), bd_, bd_.node, construct="BlockOption.decode layout", detail=str(rl))
-    src_ok = any(isinstance(n, ast.Assign) and match("int.from_bytes(%s, 'big')" % raw, n.value) is not None for n in walk_no_nested(bd_.node))
-    ctx.ob("Block option reader interprets the value as big-endian unsigned integer", src_ok, bd_, bd_.node, construct="BlockOption.decode source")
+    enc, dec = codec("BlockOption", 23)
+    wrows, rrows = [], []
+    for num in (0, 1, 2, 15, 16, 17, 255, 256, 4095, 4096, 65535, (1 << 20) - 1):
+        for more in (0, 1):
+            for szx in range(8):
+                val = (num << 4) | (more << 3) | szx
+                raw = ref_uint(val)
+                wrows.append(("encode NUM %d M %d SZX %d" % (num, more, szx), show(enc((num, more, szx)), _hex), raw.hex()))
 
+                def fields(x):
+                    v = x[0]
+                    return "NUM %d M %d SZX %d re-encoded %s" % (int(I.getattr(v, "block_number")), int(bool(I.truth(I.getattr(v, "more")))), int(I.getattr(v, "size_exponent")), x[1].hex())
+                r = dec(raw)
+                rrows.append(("decode %s" % raw.hex(), K.attempt(I, lambda: fields(r.value)).value if r.ok else r.describe(), "NUM %d M %d SZX %d re-encoded %s" % (num, more, szx, raw.hex())))
+    df = first_diff(wrows)
+    ctx.ob("Block option writer: NUM << 4 | M << 3 | SZX (RFC 7959 section 2.2), minimal big-endian", df is None, be_, be_.node, construct="BlockOption.encode layout", detail=df)
+    df = first_diff(rrows)
+    ctx.ob("Block option reader: big-endian unsigned integer, NUM = value >> 4, M = bit 3, SZX = bits 2..0", df is None, bd_, bd_.node, construct="BlockOption.decode layout", detail=df)
+
+
+# ---------------------------------------------------------------------------
+# f: registry
 
 RFC_FORMATS = {  # option name: (number, format class family)
     "IF_MATCH": (1, "OpaqueOption"), "URI_HOST": (3, "StringOption"), "ETAG": (4, "OpaqueOption"), "IF_NONE_MATCH": (5, "OpaqueOption"),
@@ -634,55 +1164,176 @@ RFC_FORMATS = {  # option name: (number, format class family)
 
 @R.clause("C01.f", "option number -> format registrations equal the RFC registry table")
 def f(ctx):
-    regs = registered_formats(ctx.prog)
-    ci = ctx.prog.cls("numbers.optionnumbers.OptionNumber")
-    mod = ctx.prog.module("numbers.optionnumbers")
+    I = interp(ctx)
+    regs, default = format_table(I)
+    ON = g_(I, "numbers.optionnumbers", "OptionNumber")
     gf = ctx.prog.func("numbers.optionnumbers.OptionNumber._get_format")
-    default = None
-    for n in walk_no_nested(gf.node):
-        if isinstance(n, ast.Return) and chain(n.value) and chain(n.value).startswith("optiontypes."):
-            default = chain(n.value).split(".")[-1]
     n_ok = 0
     for name, (num, fmt) in sorted(RFC_FORMATS.items(), key=lambda kv: kv[1][0]):
-        try:
-            val = consteval(ci.attrs[name]) if name in ci.attrs else None
-        except NormError:
-            val = None
+        val = regs[name][0] if name in regs else None
         ctx.ob("OptionNumber.%s == %d" % (name, num), val == num, None, None, construct="OptionNumber.%s" % name, detail="value %r" % val)
-        got = regs.get(name, default)
+        # what the codec consults: the format of the member the *number* resolves to
+        r = K.attempt(I, lambda: I.getattr(I.call(ON, [num], {}), "format"))
+        got = short_name(r.value) if r.ok else r.describe()
         ctx.ob("option %s (%d) is serialised as %s" % (name, num, fmt), got == fmt, None, None, construct="OptionNumber.%s format" % name, detail="registered %s" % got)
         n_ok += 1
     ctx.floor("registry rows", n_ok, 24)
-    ctx.ob("unregistered option numbers are opaque", default == "OpaqueOption", gf, gf.node, construct="OptionNumber._get_format default")
+    ctx.ob("unregistered option numbers are opaque", short_name(default) == "OpaqueOption", gf, gf.node, construct="OptionNumber._get_format default", detail="default %s" % short_name(default))
     extra = sorted(set(regs) - set(RFC_FORMATS))
     if extra:
-        ctx.note("registrations outside the RFC table (information only): %s" % ", ".join("%s=%s" % (k, regs[k]) for k in extra))
+        ctx.note("registrations outside the RFC table (information only): %s" % ", ".join("%s=%s" % (k, short_name(regs[k][1])) for k in extra))
+
+
+# ---------------------------------------------------------------------------
+# g: identity of numbers created on demand
 
 
 @R.clause("C01.g", "option numbers the library has no name for keep their identity: every number created on demand is entered into the enum's member table, so a format registered for it is found again")
 def g_dynamic_members(ctx):
     """The codec finds an option's format through OptionNumber(n).format, an attribute of the *member object*.  Unknown
-    numbers are created by ExtensibleIntEnum._missing_, which must enter the new member into _value2member_map_
+    numbers are created by ExtensibleIntEnum._missing_, which must enter the new member into the enum's value table
     unconditionally; an independently written breaking change stopped doing so once the table held 1024 entries, and
     formats registered for later numbers (set_format) no longer applied: the same bytes decoded to another value."""
     fi = ctx.prog.func("util.ExtensibleIntEnum._missing_")
-    cfg = cfg_of(fi)
-    p = params(fi)  # (value,) -- cls is skipped
-    stores = [n for n in walk_no_nested(fi.node) if isinstance(n, ast.Assign) and isinstance(n.targets[0], ast.Subscript) and (chain(n.targets[0].value) or "").endswith("._value2member_map_")]
-    rets = [n for n in walk_no_nested(fi.node) if isinstance(n, ast.Return) and n.value is not None]
-    ok = len(stores) == 1 and len(rets) >= 1
-    if ok:
-        st = stores[0]
-        ok = isinstance(st.value, ast.Name) and all(isinstance(r.value, ast.Name) and r.value.id == st.value.id for r in rets) and \
-            isinstance(st.targets[0].slice, ast.Name) and st.targets[0].slice.id == p[-1] and not guard_exprs(cfg, cfg.loc1(st)) and cfg.must_pass(cfg.entry, [cfg.loc1(st)])
-    ctx.ob("_missing_ registers the member it returns under its value, unconditionally", ok, fi, stores[0] if stores else fi.node,
-           construct=stmt_text(stores[0]) if stores else "ExtensibleIntEnum._missing_: registration")
     sf = ctx.prog.func("numbers.optionnumbers.OptionNumber.set_format")
-    gf = ctx.prog.func("numbers.optionnumbers.OptionNumber._get_format")
-    w = [n for n in walk_no_nested(sf.node) if isinstance(n, ast.Assign) and any(chain(t) == "self._format" for t in n.targets)]
-    r = [n for n in walk_no_nested(gf.node) if isinstance(n, ast.Return) and chain(n.value) == "self._format"]
-    ctx.ob("the format is stored on and read from the member object (self._format)", len(w) == 1 and len(r) == 1 and isinstance(w[0].value, ast.Name) and w[0].value.id == params(sf)[0], sf, w[0] if w else sf.node)
+    # (1) every normal path of _missing_ enters the member it returns into the table (or returns what the table holds)
+    cfg = cfg_of(fi)
+    stores = [(k, n) for k, n in stores_to_any(fi.node, "_value2member_map_") if k in ("setitem", "setdefault", "update", "assign")]
+    snodes = set()
+    for k, n in stores:
+        snodes.update(cfg.locate(n))
+    pm = PathModel(fi)
+    bad = None
+    nret = 0
+    for p in pm.paths():
+        if p.end not in ("return", "fall"):
+            continue
+        nret += 1
+        if snodes & set(p.nodes):
+            continue
+        # a path that does not store must hand out what the table already holds
+        last = [cfg.nodes[x] for x in p.nodes if cfg.nodes[x].kind == "return"]
+        rv = resolve_local(fi.node, last[-1].ast.value) if last and last[-1].ast.value is not None else None
+        reads_table = rv is not None and any(isinstance(x, ast.Attribute) and x.attr == "_value2member_map_" for x in ast.walk(rv))
+        if not reads_table:
+            bad = pm.describe(p)
+    ctx.need(nret >= 1, "ExtensibleIntEnum._missing_ has no returning path")
+    history = 4200
+    if stores:
+        ctx.ob("_missing_ registers the member it returns under its value, unconditionally", bad is None, fi, stores[0][1],
+               construct=stmt_text(stores[0][1]), detail=("not registered when %s" % bad) if bad else None)
+    else:
+        # the registration is spelled in a way the store finder does not see: decided by the evaluation below alone, over a
+        # history longer than any table bound that would still be practical (one member per 16-bit option number)
+        ctx.note("no syntactic store into _value2member_map_ found in _missing_; identity decided by evaluation over 70000 numbers")
+        history = 70000
+    # (2) the observable consequence, evaluated: a number created on demand is the same object every time, also after
+    # thousands of other numbers have been seen, and a format set on it is what the codec finds
+    I = interp(ctx)
+    ON = g_(I, "numbers.optionnumbers", "OptionNumber")
+    uint = g_(I, "optiontypes", "UintOption")
+    opaque = g_(I, "optiontypes", "OpaqueOption")
 
+    def scenario():
+        probs = []
+        a1 = I.call(ON, [4242], {})
+        if I.call(ON, [4242], {}) is not a1:
+            probs.append("OptionNumber(4242) twice gives two objects")
+        if I.binop(ast.Add, I.call(ON, [4000], {}), 242) is not a1:
+            probs.append("OptionNumber(4000) + 242 is not the object OptionNumber(4242)")
+        if I.getattr(a1, "format") is not opaque:
+            probs.append("format of a fresh number is %s" % short_name(I.getattr(a1, "format")))
+        I.call(I.getattr(a1, "set_format"), [uint], {})
+        if I.getattr(I.call(ON, [4242], {}), "format") is not uint:
+            probs.append("a format set on OptionNumber(4242) is not found through OptionNumber(4242) afterwards")
+        for n in range(100000, 100000 + history):
+            I.call(ON, [n], {})
+        late = I.call(ON, [40001], {})
+        I.call(I.getattr(late, "set_format"), [uint], {})
+        got = I.getattr(I.binop(ast.Add, I.call(ON, [40000], {}), 1), "format")
+        if got is not uint:
+            probs.append("after thousands of other numbers, a format set on OptionNumber(40001) is not found again (found %s)" % short_name(got))
+        if I.getattr(I.call(ON, [4242], {}), "format") is not uint:
+            probs.append("the format of OptionNumber(4242) was lost")
+        return probs
+
+    r = K.attempt(I, scenario)
+    probs = r.value if r.ok else [r.describe()]
+    ctx.ob("the format is stored on and read from the member object, and numbers created on demand are that one object every time", not probs, sf, sf.node,
+           construct="OptionNumber format identity", detail="; ".join(probs) if probs else None)
+
+
+# ---------------------------------------------------------------------------
+# h: the receive path hands the parser whole datagrams
+
+RECV_FLOOR = 4096  # hand-confirmed on the confirmed tree: datagrams up to this size reach Message.decode unshortened
+
+
+def _size_candidates(ctx, I, fi, e, depth=0):
+    """every value the buffer-size expression can take, as integers, through def-use: locals, `self.X` as class
+    attribute along the MRO (and overrides in subclasses) or as instance attribute assigned in any method of the
+    class, module constants, constant arithmetic (evaluated in the checker's evaluator)"""
+    if depth > 4:
+        raise AnalysisError("buffer size of recvmsg(): def-use chain too deep")
+    e = resolve_value(fi.node, e)
+    c = chain(e)
+    if c and c.startswith("self.") and c.count(".") == 1 and fi.cls is not None:
+        attr = c.split(".")[1]
+        out = []
+        classes = [fi.cls.qn] + [q for q in ctx.prog.subclasses(fi.cls.qn) if q != fi.cls.qn]
+        for q in classes:
+            v, _ = I.class_lookup(I.classref(q), attr)
+            if v is not None:
+                out.append(v)
+            for k in ctx.prog.mro(q):
+                ci = ctx.prog.classes.get(k)
+                if ci is None:
+                    continue
+                for m in ci.methods.values():
+                    for kind, n in stores_to(m.node, c, nested=False):
+                        if kind == "assign" and isinstance(n, (ast.Assign, ast.AnnAssign)) and n.value is not None:
+                            out.extend(_size_candidates(ctx, I, m, n.value, depth + 1))
+                        else:
+                            raise AnalysisError("buffer size of recvmsg(): %s is modified in %s" % (c, m.short))
+        if not out:
+            raise AnalysisError("buffer size of recvmsg(): no value found for %s" % c)
+        return out
+    if isinstance(e, ast.IfExp):
+        return _size_candidates(ctx, I, fi, e.body, depth + 1) + _size_candidates(ctx, I, fi, e.orelse, depth + 1)
+    r = K.attempt(I, lambda: I.eval(e, K.Frame(set(), None, fi.module)))
+    if not r.ok:
+        raise AnalysisError("buffer size of recvmsg(): cannot evaluate %s" % stmt_text(e, 60))
+    return [r.value]
+
+
+@R.clause("C01.h", "the udp6 receive path hands the parser whole datagrams: the buffer passed to recvmsg() is not smaller than the hand-confirmed 4096 bytes, or truncation (MSG_TRUNC) is looked at")
+def h(ctx):
+    """A datagram longer than the buffer passed to recvmsg() is silently cut by the kernel before Message.decode sees it
+    (an independently written breaking change halved the buffer): the parser then decodes a well-formed datagram into
+    a message with a shortened payload."""
+    I = interp(ctx)
+    n = 0
+    for fi in sorted(ctx.prog.funcs.values(), key=lambda f: f.qn):
+        if not (fi.module.name.startswith("aiocoap.util.asyncio") or fi.module.name.startswith("aiocoap.transports")):
+            continue
+        for c in calls_in(fi.node):
+            if not (isinstance(c.func, ast.Attribute) and c.func.attr == "recvmsg" and c.args):
+                continue
+            if any(isinstance(x, (ast.Attribute, ast.Name)) and (chain(x) or "").split(".")[-1] == "MSG_ERRQUEUE" for a_ in list(c.args[1:]) + [k.value for k in c.keywords] for x in ast.walk(a_)):
+                continue  # the error queue carries ICMP reports, not datagrams for the parser
+            n += 1
+            looks_at_trunc = any(isinstance(x, (ast.Attribute, ast.Name)) and (chain(x) or "").split(".")[-1] == "MSG_TRUNC" for x in ast.walk(fi.node))
+            vals = _size_candidates(ctx, I, fi, c.args[0])
+            ints = [v for v in vals if isinstance(v, int) and not isinstance(v, bool)]
+            ctx.need(len(ints) == len(vals), "buffer size of recvmsg() is not an integer: %r" % (vals,))
+            ctx.ob("datagrams of up to %d bytes are received whole (recvmsg buffer size %s)" % (RECV_FLOOR, sorted(set(ints))), looks_at_trunc or min(ints) >= RECV_FLOOR, fi, c,
+                   construct="recvmsg buffer size in %s" % fi.short, detail="buffer of %d bytes: longer datagrams are cut before they reach Message.decode" % min(ints))
+    ctx.floor("recvmsg() call sites that receive datagrams", n, 1)
+
+
+
+# ---------------------------------------------------------------------------
+# seeds
 
 F_M = "aiocoap/message.py"
 F_O = "aiocoap/options.py"
@@ -713,3 +1364,10 @@ R.seed("C01.f", "aiocoap/numbers/optionnumbers.py", "OptionNumber.URI_PORT.set_f
 R.seed("C01.f", "aiocoap/numbers/optionnumbers.py", "    MAX_AGE = 14\n", "    MAX_AGE = 18\n", "wrong option number")
 
 R.seed("C01.g", "aiocoap/util/__init__.py", "        cls._value2member_map_[value] = new_member\n", "        if len(cls._value2member_map_) < 1024:\n            cls._value2member_map_[value] = new_member\n", "members beyond the 1024th are throw-away objects: set_format on them is lost")
+R.seed("C01.g", "aiocoap/numbers/optionnumbers.py", "        return type(self)(int(self) + delta)", "        return int.__new__(type(self), int(self) + delta)", "delta addition hands out throw-away members that bypass the member table: registered formats are not found while parsing")
+R.seed("C01.h", "aiocoap/util/asyncio/recvmsg.py", "    max_size = 4096  #", "    max_size = 2048  #", "receive buffer halved: datagrams of 2049..4096 bytes are cut before they are parsed")
+R.seed("C01.c", F_M, "        self.version = 1\n", "        self.version = 2\n", "wrong version written")
+R.seed("C01.d", F_O, "        if len(rawdata) < 2:\n            raise UnparsableMessage(\"Option ended prematurely\")", "        if len(rawdata) < 1:\n            raise UnparsableMessage(\"Option ended prematurely\")", "two-byte extension accepted with one byte left")
+R.seed("C01.d", F_O, "            if rawdata[0] == 0xFF:\n                return rawdata[1:]", "            if rawdata[0] == 0xFF:\n                return rawdata", "payload marker returned as part of the payload")
+R.seed("C01.e", F_T, "        self.value = int.from_bytes(rawdata, \"big\")", "        self.value = int.from_bytes(rawdata, \"little\")", "uint option read little endian")
+R.seed("C01.a", F_O, "            except UnicodeDecodeError:\n                raise UnparsableMessage(\"Option value is not valid UTF-8\")", "            except UnicodeEncodeError:\n                raise UnparsableMessage(\"Option value is not valid UTF-8\")", "invalid UTF-8 in a string option escapes as UnicodeDecodeError")
